@@ -88,6 +88,134 @@ Proof.
 Qed.
 
 (** ---------------------------------------------------------------------------------------------
+    inheritance: field lookup through the parents *)
+Fixpoint ff_par (k : nat) (recs : list recd) (nm : name) (ps : list N) : option N :=
+  match ps with
+  | [] => None
+  | p :: r => match find_field k recs p nm with Some x => Some x | None => ff_par k recs nm r end
+  end.
+Lemma find_field_S : forall k recs id nm,
+    find_field (S k) recs id nm
+    = match nthN recs id with
+      | None => None
+      | Some r => match alookup nm (rc_fields r) with
+                  | Some x => Some x
+                  | None => ff_par k recs nm (rc_parents r)
+                  end
+      end.
+Proof.
+  intros k recs id nm. simpl. destruct (nthN recs id) as [r|]; [|reflexivity].
+  destruct (alookup nm (rc_fields r)); [reflexivity|].
+  induction (rc_parents r) as [|p ps IH]; [reflexivity|]. simpl.
+  destruct (find_field k recs p nm); [reflexivity|exact IH].
+Qed.
+Lemma ff_par_app : forall k recs nm a b,
+    ff_par k recs nm (a ++ b) = match ff_par k recs nm a with Some x => Some x | None => ff_par k recs nm b end.
+Proof.
+  intros k recs nm a b. induction a as [|p r IH]; [reflexivity|]. simpl.
+  destruct (find_field k recs p nm); [reflexivity|exact IH].
+Qed.
+
+(** parents are older records *)
+Definition REC (recs : list recd) : Prop :=
+  forall id rc, nthN recs id = Some rc -> forall p, In p (rc_parents rc) -> p < id.
+
+Lemma nthN_some_lt : forall A (l : list A) i x, nthN l i = Some x -> (N.to_nat i < length l)%nat.
+Proof. intros A l i x H. unfold nthN in H. apply nth_error_Some. congruence. Qed.
+
+Lemma ff_fuel : forall recs nm, REC recs -> forall k1 k2 id,
+    (N.to_nat id < k1)%nat -> (N.to_nat id < k2)%nat -> find_field k1 recs id nm = find_field k2 recs id nm.
+Proof.
+  intros recs nm HR. induction k1 as [|k1 IH]; intros k2 id H1 H2; [lia|].
+  destruct k2 as [|k2]; [lia|]. rewrite !find_field_S.
+  destruct (nthN recs id) as [r|] eqn:E; [|reflexivity].
+  destruct (alookup nm (rc_fields r)); [reflexivity|].
+  pose proof (HR id r E) as Hp. revert Hp. generalize (rc_parents r). intros ps.
+  induction ps as [|p ps IHp]; intros Hp; [reflexivity|]. simpl.
+  assert (Hlt : p < id) by (apply Hp; now left).
+  rewrite (IH k2 p) by lia. destruct (find_field k2 recs p nm); [reflexivity|].
+  apply IHp. intros q Hq. apply Hp. now right.
+Qed.
+
+Lemma ff_agree : forall recs recs' nm b, REC recs ->
+    (forall id, id < b -> nthN recs' id = nthN recs id) ->
+    forall k id, id < b -> find_field k recs' id nm = find_field k recs id nm.
+Proof.
+  intros recs recs' nm b HR Hag. induction k as [|k IH]; intros id Hid; [reflexivity|].
+  rewrite !find_field_S, (Hag id Hid).
+  destruct (nthN recs id) as [r|] eqn:E; [|reflexivity].
+  destruct (alookup nm (rc_fields r)); [reflexivity|].
+  pose proof (HR id r E) as Hp. revert Hp. generalize (rc_parents r). intros ps.
+  induction ps as [|p ps IHp]; intros Hp; [reflexivity|]. simpl.
+  assert (Hlt : p < id) by (apply Hp; now left).
+  rewrite (IH p) by lia. destruct (find_field k recs p nm); [reflexivity|].
+  apply IHp. intros q Hq. apply Hp. now right.
+Qed.
+
+(** the flattened field table [l] of the specification describes what [find_field] finds in record [cid] *)
+Definition FLD (s : st) (cid : N) (l : list (name * rng)) : Prop :=
+  forall nm, match find_field (rec_fuel s) (s_recs s) cid nm with
+             | Some id => exists lf, nthN (s_leaves s) id = Some lf /\ lookup nm l = Some (lf_loc lf)
+             | None => lookup nm l = None
+             end.
+
+Lemma FLD_mono : forall s s' cid l b,
+    FLD s cid l -> REC (s_recs s) -> cid < b ->
+    (forall id, id < b -> nthN (s_recs s') id = nthN (s_recs s) id) ->
+    nthN (s_recs s) cid <> None ->
+    (exists ext, s_leaves s' = s_leaves s ++ ext) ->
+    FLD s' cid l.
+Proof.
+  intros s s' cid l b H HR Hb Hag Hv [ext Hl] nm. specialize (H nm).
+  assert (V1 : (N.to_nat cid < length (s_recs s))%nat).
+  { destruct (nthN (s_recs s) cid) eqn:E; [|congruence]. eapply nthN_some_lt; eassumption. }
+  assert (V2 : (N.to_nat cid < length (s_recs s'))%nat).
+  { rewrite <- (Hag cid Hb) in Hv. destruct (nthN (s_recs s') cid) eqn:E; [|congruence]. eapply nthN_some_lt; eassumption. }
+  unfold rec_fuel in *.
+  rewrite (ff_agree (s_recs s) (s_recs s') nm b HR Hag _ cid Hb).
+  rewrite (ff_fuel (s_recs s) nm HR (S (length (s_recs s'))) (S (length (s_recs s))) cid) by lia.
+  destruct (find_field (S (length (s_recs s))) (s_recs s) cid nm) as [id|]; [|exact H].
+  destruct H as [lf [A B]]. exists lf. split; [|exact B]. rewrite Hl. now apply nthN_app_some.
+Qed.
+
+(** every class of the environment is a record of the model with that field table; the class whose body is open
+    ([open]) is exempt: its entry in the environment has no fields until the body ends *)
+Definition CFo (open : option N) (e : env) (s : st) : Prop :=
+  forall nm ci, lookup nm (e_cls e) = Some ci ->
+    exists cid, find_class s nm = Some cid /\ nthN (s_recs s) cid <> None /\
+                (open <> Some cid -> FLD s cid (ci_fields ci)).
+Definition Inh (open : option N) (e : env) (s : st) : Prop := REC (s_recs s) /\ CFo open e s.
+
+Lemma Inh_initial : Inh None env0 st0.
+Proof. split; [intros id rc H; unfold nthN in H; simpl in H; destruct (N.to_nat id); discriminate|intros nm ci H; discriminate]. Qed.
+
+(** anything that leaves the records and the class names alone (and only appends leaves) *)
+Lemma Inh_eq : forall o e e' s s',
+    Inh o e s -> e_cls e' = e_cls e -> s_recs s' = s_recs s -> s_nclass s' = s_nclass s ->
+    (exists ext, s_leaves s' = s_leaves s ++ ext) -> Inh o e' s'.
+Proof.
+  intros o e e' s s' [HR HC] He Hr Hn Hl. split; [now rewrite Hr|].
+  intros nm ci H. rewrite He in H. destruct (HC nm ci H) as (cid & A & B & C).
+  exists cid. unfold find_class in *. rewrite Hn, Hr. repeat split; auto.
+  intros Ho. specialize (C Ho).
+  apply (FLD_mono s s' cid (ci_fields ci) (N.succ cid)); auto; [lia|]. intros id _. now rewrite Hr.
+Qed.
+Lemma Inh_weaken : forall o e s, Inh None e s -> Inh o e s.
+Proof.
+  intros o e s [HR HC]. split; [exact HR|]. intros nm ci H. destruct (HC nm ci H) as (cid & A & B & C).
+  exists cid. repeat split; auto. intros _. apply C. discriminate.
+Qed.
+Lemma Inh_VR : forall o e s s', Inh o e s -> VR s s' -> Inh o e s'.
+Proof.
+  intros o e s s' H V. pose proof V as (Hr & Hm & Hc & Hd & Hmc & Hds & Ht & Hl).
+  eapply Inh_eq; eauto.
+Qed.
+Lemma Inh_globals : forall o e e' s, same_globals e e' -> Inh o e s -> Inh o e' s.
+Proof.
+  intros o e e' s (G1 & _) H. eapply Inh_eq; eauto. exists []. now rewrite app_nil_r.
+Qed.
+
+(** ---------------------------------------------------------------------------------------------
     the relation, split into locals and globals *)
 Definition locals_of (e : env) (nm : name) : option rng := first_some (frame_lookup nm) (e_frames e).
 
@@ -170,7 +298,8 @@ Record ResB (f : N) (s s' : st) (E : list ev) (e' : env) : Prop := mkResB {
   rb_scopes : exists vs, s_scopes s' = add_vars vs (s_scopes s);
   rb_pre : Pre2 f e' s';
   rb_stat : Stat s';
-  rb_frames : e_frames e' <> [] }.
+  rb_frames : e_frames e' <> [];
+  rb_inh : Inh None e' s' }.
 
 (** two states that differ at most in their scope stacks *)
 Definition same_but_scopes (a b : st) : Prop :=
@@ -231,10 +360,10 @@ Lemma finish_block_like : forall files n x f e e1 e' s s_in E,
     block_like x = true -> Stat s -> Pre2 f e s -> e_frames e <> [] ->
     e_frames e' = e_frames e -> globals_equiv e1 e' ->
     Pre2g f e1 s_in -> same_but_scopes (snd (index_stmt files n x s)) s_in ->
-    s_uses s_in = rev E ++ s_uses s -> nf s_in = nf s ->
+    s_uses s_in = rev E ++ s_uses s -> nf s_in = nf s -> Inh None e' s_in ->
     ResB f s (snd (index_stmt files n x s)) E e'.
 Proof.
-  intros files n x f e e1 e' s s_in E Hx [Hnr Hmv Hne] P He Hfr (Hcl & G2 & G3 & G4) P1 SB HU HN.
+  intros files n x f e e1 e' s s_in E Hx [Hnr Hmv Hne] P He Hfr (Hcl & G2 & G3 & G4) P1 SB HU HN HI.
   assert (Hloc : forall nm, locals_of e' nm = locals_of e nm) by (intros; unfold locals_of; now rewrite Hfr).
   assert (Hmcl : forall nm, lookup_mc e' nm = lookup_mc e1 nm) by (intros; unfold lookup_mc; now rewrite G2).
   set (s' := snd (index_stmt files n x s)) in *.
@@ -270,6 +399,7 @@ Proof.
     + now apply (mc_valid_after s s').
     + now rewrite Hsc.
   - now rewrite Hfr.
+  - eapply Inh_eq; [exact HI|reflexivity|exact Hr|exact Hc|exists []; now rewrite Hl, app_nil_r].
 Qed.
 
 (** ---- Pre2 under the scope operations *)
@@ -385,34 +515,15 @@ Proof.
 Qed.
 
 (** ---------------------------------------------------------------------------------------------
-    fragment B: all statements; class / def without parent classes (inheritance is the next stage) *)
-Fixpoint fragB_stmt (x : stmt) : bool :=
-  let stmts := fix go (l : list stmt) : bool := match l with [] => true | y :: r => fragB_stmt y && go r end in
-  match x with
-  | SInclude _ _ => false
-  | SAssert c m => frag_value c && frag_value m
-  | SClass _ targs ps b =>
-    match targs with Some l => forallb frag_targ l | None => true end
-    && match ps with [] => true | _ => false end && forallb frag_item b
-  | SDef nm _ ps b => frag_name nm && match ps with [] => true | _ => false end && forallb frag_item b
-  | SDefm nm _ ps => frag_name nm && forallb frag_classref ps
-  | SDefset _ _ b => stmts b
-  | SDefvar _ v | SDump v => frag_value v
-  | SForeach _ init b => match init with FeRange => true | FeValue v => frag_value v end && stmts b
-  | SIf c th el => frag_value c && stmts th && match el with Some b => stmts b | None => true end
-  | SLet vs b => forallb frag_value vs && stmts b
-  | SMulticlass _ targs ps b =>
-    match targs with Some l => forallb frag_targ l | None => true end
-    && forallb frag_classref ps && stmts b
-  end.
-Fixpoint fragB_stmts (l : list stmt) : bool :=
-  match l with [] => true | y :: r => fragB_stmt y && fragB_stmts r end.
+    fragment B: all statements but include; no field access *)
+Notation fragB_stmt := frag_stmt (only parsing).
+Definition fragB_stmts (l : list stmt) : bool := forallb frag_stmt l.
 Lemma fragB_local : forall l,
     (fix go (l : list stmt) : bool := match l with [] => true | y :: r => fragB_stmt y && go r end) l = fragB_stmts l.
 Proof. induction l as [|y r IH]; [reflexivity|]. simpl. now rewrite IH. Qed.
 
 Definition sim_B (files : list (list stmt)) (n : nat) : Prop := forall x f e s,
-    fragB_stmt x = true -> Pre2 f e s -> Stat s -> e_frames e <> [] ->
+    fragB_stmt x = true -> Pre2 f e s -> Stat s -> e_frames e <> [] -> Inh None e s ->
     forallb resolved (fst (spec_stmt f e x)) = true ->
     s_bad (snd (index_stmt files n x s)) = false ->
     ResB f s (snd (index_stmt files n x s)) (fst (spec_stmt f e x)) (snd (spec_stmt f e x)).
@@ -420,19 +531,19 @@ Definition sim_B (files : list (list stmt)) (n : nat) : Prop := forall x f e s,
 Lemma ResB_trans : forall f a b c E1 E2 e1 e2,
     ResB f a b E1 e1 -> ResB f b c E2 e2 -> ResB f a c (E1 ++ E2) e2.
 Proof.
-  intros f a b c E1 E2 e1 e2 [U1 N1 [v1 S1] _ _ _] [U2 N2 [v2 S2] P2 T2 F2]. split; auto.
+  intros f a b c E1 E2 e1 e2 [U1 N1 [v1 S1] _ _ _ _] [U2 N2 [v2 S2] P2 T2 F2 I2]. split; auto.
   - rewrite U2, U1, rev_app_distr, app_assoc. reflexivity.
   - congruence.
   - exists (v2 ++ v1). now rewrite S2, S1, add_vars_app.
 Qed.
 
 Lemma stmtsB_sim : forall files n, sim_B files n -> forall l f e s,
-    fragB_stmts l = true -> Pre2 f e s -> Stat s -> e_frames e <> [] ->
+    fragB_stmts l = true -> Pre2 f e s -> Stat s -> e_frames e <> [] -> Inh None e s ->
     forallb resolved (fst (spec_stmts f e l)) = true ->
     s_bad (snd (iterM (index_stmt files n) l s)) = false ->
     ResB f s (snd (iterM (index_stmt files n) l s)) (fst (spec_stmts f e l)) (snd (spec_stmts f e l)).
 Proof.
-  intros files n IH l. induction l as [|y r IHl]; intros f e s Hf P T He HR Hb.
+  intros files n IH l. induction l as [|y r IHl]; intros f e s Hf P T He HI HR Hb.
   - simpl. split; auto. exists []. now rewrite add_vars_nil.
   - simpl in Hf. apply andb_true_iff in Hf. destruct Hf as [Hf1 Hf2].
     rewrite spec_stmts_cons in *. simpl in Hb |- *. unfold seq in *.
@@ -441,9 +552,9 @@ Proof.
     rewrite forallb_app in HR. apply andb_true_iff in HR. destruct HR as [HR1 HR2].
     assert (Hb1 : s_bad (snd (index_stmt files n y s)) = false)
       by (eapply (bad_false_before _ (iterM (index_stmt files n) r)); [apply BM_stmts|exact Hb]).
-    pose proof (IH y f e s Hf1 P T He) as R1. rewrite E1 in R1. simpl in R1. specialize (R1 HR1 Hb1).
-    pose proof R1 as [_ _ _ P1 T1 F1].
-    pose proof (IHl f e1 (snd (index_stmt files n y s)) Hf2 P1 T1 F1) as R2.
+    pose proof (IH y f e s Hf1 P T He HI) as R1. rewrite E1 in R1. simpl in R1. specialize (R1 HR1 Hb1).
+    pose proof R1 as [_ _ _ P1 T1 F1 I1].
+    pose proof (IHl f e1 (snd (index_stmt files n y s)) Hf2 P1 T1 F1 I1) as R2.
     rewrite E2 in R2. simpl in R2. specialize (R2 HR2 Hb).
     eapply ResB_trans; eassumption.
 Qed.
@@ -456,12 +567,13 @@ Proof.
   - now rewrite Hs.
 Qed.
 Lemma ResB_of_Step : forall f e s s' E,
-    Step s s' E -> Pre2 f e s -> Stat s -> e_frames e <> [] -> ResB f s s' E e.
+    Step s s' E -> Pre2 f e s -> Stat s -> e_frames e <> [] -> Inh None e s -> ResB f s s' E e.
 Proof.
-  intros f e s s' E St P T He. pose proof St as [U V S N]. split; auto.
+  intros f e s s' E St P T He HI. pose proof St as [U V S N]. split; auto.
   - exists []. now rewrite add_vars_nil.
   - eapply Pre2_Step; eassumption.
   - destruct V as (_ & Hm & _). eapply Stat_same_scopes; eassumption.
+  - eapply Inh_VR; eassumption.
 Qed.
 
 Lemma scoped_final : forall A k (body : M A) s vs,
@@ -482,13 +594,13 @@ Section CasesB.
   Hypothesis IH : sim_B files n.
 
   Lemma block_B : forall b f e s,
-      fragB_stmts b = true -> Pre2 f e s -> Stat s -> e_frames e <> [] ->
+      fragB_stmts b = true -> Pre2 f e s -> Stat s -> e_frames e <> [] -> Inh None e s ->
       forallb resolved (fst (spec_stmts f (push_vars e []) b)) = true ->
       s_bad (snd (scoped KBlock (iterM (index_stmt files n) b) s)) = false ->
       ResB f s (snd (scoped KBlock (iterM (index_stmt files n) b) s))
            (fst (spec_stmts f (push_vars e []) b)) (leave e (snd (spec_stmts f (push_vars e []) b))).
   Proof.
-    intros b f e s Hf P T He HR Hb.
+    intros b f e s Hf P T He HI HR Hb.
     assert (Hb' := Hb). apply scoped_bad in Hb'.
     pose proof (stmtsB_sim files n IH b f (push_vars e []) (pushed KBlock s) Hf
                            (Pre2_pushed f e s KBlock P eq_refl) (Stat_pushed KBlock s T eq_refl)) as R.
@@ -525,12 +637,12 @@ Section CasesB2.
   Proof. intros l H. now rewrite fragB_local in H. Qed.
 
   Lemma caseB_assert : forall c m f e s,
-      frag_value c = true -> frag_value m = true -> Pre2 f e s -> Stat s -> e_frames e <> [] ->
+      frag_value c = true -> frag_value m = true -> Pre2 f e s -> Stat s -> e_frames e <> [] -> Inh None e s ->
       forallb resolved (spec_value f e m ++ spec_value f e c) = true ->
       s_bad (snd (index_stmt files (S n) (SAssert c m) s)) = false ->
       ResB f s (snd (index_stmt files (S n) (SAssert c m) s)) (spec_value f e m ++ spec_value f e c) e.
   Proof.
-    intros c m f e s Hfc Hfm P T He HR Hb.
+    intros c m f e s Hfc Hfm P T He HI HR Hb.
     rewrite forallb_app in HR. apply andb_true_iff in HR. destruct HR as [HR1 HR2].
     simpl in Hb |- *. unfold seq in *. simpl in *.
     assert (Hb1 : s_bad (snd (index_value n m s)) = false)
@@ -541,12 +653,12 @@ Section CasesB2.
   Qed.
 
   Lemma caseB_defvar : forall i v f e s,
-      frag_value v = true -> Pre2 f e s -> Stat s -> e_frames e <> [] ->
+      frag_value v = true -> Pre2 f e s -> Stat s -> e_frames e <> [] -> Inh None e s ->
       forallb resolved (spec_value f e v) = true ->
       s_bad (snd (index_defvar n i v s)) = false ->
       ResB f s (snd (index_defvar n i v s)) (spec_value f e v) (add_var e (i_name i) (at_file f (i_rng i))).
   Proof.
-    intros i v f e s Hf P T He HR Hb.
+    intros i v f e s Hf P T He HI HR Hb.
     unfold index_defvar, bind, here, get, try_ in *. simpl in *.
     destruct (index_value n v s) as [o s1] eqn:E1. simpl in *.
     set (l := mkLeaf LVar (i_name i) match o with Some t => t | None => MUnknown end false
@@ -565,8 +677,8 @@ Section CasesB2.
     assert (Hl : l = mkLeaf LVar (i_name i) match o with Some t => t | None => MUnknown end false
                         (mkR f (r_lo (i_rng i)) (r_hi (i_rng i)))).
     { unfold l. now rewrite (p2_file f e s P). }
-    destruct (with_var_facts s1 l c t Esc) as (Hsc & _ & Hu & Hn & _).
-    destruct S1 as [U1 _ Sc1 N1].
+    destruct (with_var_facts s1 l c t Esc) as (Hsc & _ & Hu & Hn & Vw).
+    destruct S1 as [U1 V1 Sc1 N1].
     split.
     - rewrite Hu. exact U1.
     - rewrite Hn. exact N1.
@@ -574,6 +686,7 @@ Section CasesB2.
     - rewrite Hl. apply (Pre2_with_var f e s1 i _ c t); assumption.
     - eapply Stat_with_var; eassumption.
     - unfold add_var. destruct (e_frames e); [congruence|discriminate].
+    - eapply (Inh_globals None e); [apply same_globals_add_var|]. eapply Inh_VR; [|exact Vw]. eapply Inh_VR; eassumption.
   Qed.
 End CasesB2.
 
@@ -679,13 +792,19 @@ Proof.
   - congruence.
   - congruence.
 Qed.
-Lemma ResB_of_StepM : forall f e s s' E,
-    StepM s s' E -> Pre2 f e s -> Stat s -> e_frames e <> [] -> ResB f s s' E e.
+Lemma Inh_VRm : forall o e s s', Inh o e s -> VRm s s' -> Inh o e s'.
 Proof.
-  intros f e s s' E [U V Sc N] P T He. split; auto.
+  intros o e s s' H V. pose proof V as (Hr & Hm & Hc & Hd & Hmc & Hds & Ht & Hl).
+  eapply Inh_eq; eauto.
+Qed.
+Lemma ResB_of_StepM : forall f e s s' E,
+    StepM s s' E -> Pre2 f e s -> Stat s -> e_frames e <> [] -> Inh None e s -> ResB f s s' E e.
+Proof.
+  intros f e s s' E [U V Sc N] P T He HI. split; auto.
   - exists []. now rewrite add_vars_nil.
   - eapply Pre2_VRm; eassumption.
   - eapply Stat_VRm; eassumption.
+  - eapply Inh_VRm; eassumption.
 Qed.
 
 (** ---- references to multiclasses (parents of a multiclass, of a defm) *)
@@ -808,22 +927,22 @@ Section CasesB3.
   Hypothesis IH : sim_B files n.
 
   Lemma caseB_dump : forall v f e s,
-      frag_value v = true -> Pre2 f e s -> Stat s -> e_frames e <> [] ->
+      frag_value v = true -> Pre2 f e s -> Stat s -> e_frames e <> [] -> Inh None e s ->
       forallb resolved (spec_value f e v) = true ->
       s_bad (snd (index_stmt files (S n) (SDump v) s)) = false ->
       ResB f s (snd (index_stmt files (S n) (SDump v) s)) (spec_value f e v) e.
   Proof.
-    intros v f e s Hf P T He HR Hb. simpl in Hb |- *. unfold seq in *. simpl in *.
+    intros v f e s Hf P T He HI HR Hb. simpl in Hb |- *. unfold seq in *. simpl in *.
     apply ResB_of_Step; auto. apply value_agrees; auto. now apply Pre2_Pre.
   Qed.
 
   Lemma caseB_let : forall vs b f e s,
-      forallb frag_value vs = true -> fragB_stmts b = true -> Pre2 f e s -> Stat s -> e_frames e <> [] ->
+      forallb frag_value vs = true -> fragB_stmts b = true -> Pre2 f e s -> Stat s -> e_frames e <> [] -> Inh None e s ->
       forallb resolved (fst (spec_stmt f e (SLet vs b))) = true ->
       s_bad (snd (index_stmt files (S n) (SLet vs b) s)) = false ->
       ResB f s (snd (index_stmt files (S n) (SLet vs b) s)) (fst (spec_stmt f e (SLet vs b))) (snd (spec_stmt f e (SLet vs b))).
   Proof.
-    intros vs b f e s Hfv Hfb P T He HR Hb. rewrite spec_let in *.
+    intros vs b f e s Hfv Hfb P T He HI HR Hb. rewrite spec_let in *.
     destruct (spec_stmts f (push_vars e []) b) as [ev1 e1] eqn:Eb. simpl in HR |- *.
     rewrite forallb_app in HR. apply andb_true_iff in HR. destruct HR as [HRv HR1].
     simpl in Hb |- *. unfold seq at 1 in Hb. unfold seq at 1.
@@ -835,19 +954,19 @@ Section CasesB3.
       - intros; apply BM_index_value.
       - intros x s0 Hin P0 HR0 Hb0. apply value_agrees; auto. eapply forallb_In; eassumption.
       - now apply Pre2_Pre. }
-    pose proof (ResB_of_Step f e s s1 _ S0 P T He) as R0. pose proof R0 as [_ _ _ P1 T1 _].
-    pose proof (block_B files n IH b f e s1 Hfb P1 T1 He) as R1. rewrite Eb in R1. simpl in R1.
+    pose proof (ResB_of_Step f e s s1 _ S0 P T He HI) as R0. pose proof R0 as [_ _ _ P1 T1 _ I1].
+    pose proof (block_B files n IH b f e s1 Hfb P1 T1 He I1) as R1. rewrite Eb in R1. simpl in R1.
     eapply ResB_trans; [exact R0|apply R1; assumption].
   Qed.
 
   Lemma caseB_if : forall c th el f e s,
       frag_value c = true -> fragB_stmts th = true -> match el with Some b => fragB_stmts b | None => true end = true ->
-      Pre2 f e s -> Stat s -> e_frames e <> [] ->
+      Pre2 f e s -> Stat s -> e_frames e <> [] -> Inh None e s ->
       forallb resolved (fst (spec_stmt f e (SIf c th el))) = true ->
       s_bad (snd (index_stmt files (S n) (SIf c th el) s)) = false ->
       ResB f s (snd (index_stmt files (S n) (SIf c th el) s)) (fst (spec_stmt f e (SIf c th el))) (snd (spec_stmt f e (SIf c th el))).
   Proof.
-    intros c th el f e s Hfc Hft Hfe P T He HR Hb. rewrite spec_if in *.
+    intros c th el f e s Hfc Hft Hfe P T He HI HR Hb. rewrite spec_if in *.
     destruct (spec_stmts f (push_vars e []) th) as [ev1 e1] eqn:Et.
     simpl in Hb |- *. unfold seq at 1 in Hb. unfold seq at 1.
     assert (BMrest : resp BadMono (iterM (fun body => scoped KBlock (iterM (index_stmt files n) body))
@@ -865,10 +984,10 @@ Section CasesB3.
       rewrite forallb_app in HR. apply andb_true_iff in HR. destruct HR as [HRc HR].
       rewrite forallb_app in HR. apply andb_true_iff in HR. destruct HR as [HR1 HR2].
       pose proof (value_agrees n c f e s Hfc (Pre2_Pre _ _ _ P) HRc Hbc) as S0. fold s1 in S0.
-      pose proof (ResB_of_Step f e s s1 _ S0 P T He) as R0. pose proof R0 as [_ _ _ P1 T1 _].
-      pose proof (block_B files n IH th f e s1 Hft P1 T1 He) as R1. rewrite Et in R1. simpl in R1.
-      specialize (R1 HR1 Hb2). fold s2 in R1. pose proof R1 as [_ _ _ P2 T2 F2].
-      pose proof (block_B files n IH eb f (leave e e1) s2 Hfe P2 T2 F2) as R2. rewrite Ee in R2. simpl in R2.
+      pose proof (ResB_of_Step f e s s1 _ S0 P T He HI) as R0. pose proof R0 as [_ _ _ P1 T1 _ I1].
+      pose proof (block_B files n IH th f e s1 Hft P1 T1 He I1) as R1. rewrite Et in R1. simpl in R1.
+      specialize (R1 HR1 Hb2). fold s2 in R1. pose proof R1 as [_ _ _ P2 T2 F2 I2].
+      pose proof (block_B files n IH eb f (leave e e1) s2 Hfe P2 T2 F2 I2) as R2. rewrite Ee in R2. simpl in R2.
       specialize (R2 HR2 Hb).
       replace (leave e e2) with (leave (leave e e1) e2) by reflexivity.
       eapply ResB_trans; [exact R0|]. eapply ResB_trans; [exact R1|exact R2].
@@ -876,8 +995,8 @@ Section CasesB3.
       rewrite forallb_app in HR. apply andb_true_iff in HR. destruct HR as [HRc HR].
       rewrite app_nil_r in *.
       pose proof (value_agrees n c f e s Hfc (Pre2_Pre _ _ _ P) HRc Hbc) as S0. fold s1 in S0.
-      pose proof (ResB_of_Step f e s s1 _ S0 P T He) as R0. pose proof R0 as [_ _ _ P1 T1 _].
-      pose proof (block_B files n IH th f e s1 Hft P1 T1 He) as R1. rewrite Et in R1. simpl in R1.
+      pose proof (ResB_of_Step f e s s1 _ S0 P T He HI) as R0. pose proof R0 as [_ _ _ P1 T1 _ I1].
+      pose proof (block_B files n IH th f e s1 Hft P1 T1 He I1) as R1. rewrite Et in R1. simpl in R1.
       eapply ResB_trans; [exact R0|apply R1; assumption].
   Qed.
 End CasesB3.
@@ -893,13 +1012,13 @@ Section CasesB4.
 
   Lemma caseB_foreach : forall i init b f e s,
       match init with FeRange => true | FeValue v => frag_value v end = true -> fragB_stmts b = true ->
-      Pre2 f e s -> Stat s -> e_frames e <> [] ->
+      Pre2 f e s -> Stat s -> e_frames e <> [] -> Inh None e s ->
       forallb resolved (fst (spec_stmt f e (SForeach i init b))) = true ->
       s_bad (snd (index_stmt files (S n) (SForeach i init b) s)) = false ->
       ResB f s (snd (index_stmt files (S n) (SForeach i init b) s))
            (fst (spec_stmt f e (SForeach i init b))) (snd (spec_stmt f e (SForeach i init b))).
   Proof.
-    intros i init b f e s Hfi Hfb P T He HR Hb.
+    intros i init b f e s Hfi Hfb P T He HI HR Hb.
     pose proof (finish_block_like files (S n) (SForeach i init b) f e) as FIN.
     set (final := snd (index_stmt files (S n) (SForeach i init b) s)) in *.
     rewrite spec_foreach in *.
@@ -934,9 +1053,9 @@ Section CasesB4.
       - unfold bind in Ei. destruct (index_value n v s) as [[t|] s1'] eqn:Ev; simpl in Ei;
           injection Ei as _ <-; replace s1' with (snd (index_value n v s)) by (now rewrite Ev);
           apply value_agrees; auto; try (now apply Pre2_Pre); now rewrite Ev. }
-    pose proof (ResB_of_Step f e s s1 _ S0 P T He) as [U0 N0 _ P1 T1 _].
+    pose proof (ResB_of_Step f e s s1 _ S0 P T He HI) as [U0 N0 _ P1 T1 _ I1].
     assert (S1 : Step s1 s2 []) by apply Step_add_leaf.
-    pose proof (ResB_of_Step f e s1 s2 _ S1 P1 T1 He) as [U1 N1 _ P2 T2 _].
+    pose proof (ResB_of_Step f e s1 s2 _ S1 P1 T1 He I1) as [U1 N1 _ P2 T2 _ I2].
     assert (Hloc : loc = at_file f (i_rng i)) by (unfold loc, at_file; now rewrite (p2_file f e s P)).
     assert (Hleaf : option_map lf_loc (nthN (s_leaves s2) (lenN (s_leaves s1))) = Some (at_file f (i_rng i))).
     { unfold s2. rewrite leaves_add_leaf, nthN_app_last. simpl. now rewrite Hloc. }
@@ -944,7 +1063,7 @@ Section CasesB4.
     fold e2 in P3. change (KForeach (i_name i) (lenN (s_leaves s1))) with (k s1) in P3.
     assert (Hb3 := Hb). apply scoped_bad in Hb3.
     pose proof (stmtsB_sim files n IH b f e2 (pushed (k s1) s2) Hfb P3 (Stat_pushed_foreach _ _ s2 T2)) as R3.
-    rewrite Eb in R3. simpl in R3. destruct R3 as [U3 N3 [vs Sc3] P4 T4 F4]; auto; [discriminate|].
+    rewrite Eb in R3. simpl in R3. destruct R3 as [U3 N3 [vs Sc3] P4 T4 F4 I4]; auto; [discriminate|].
     rewrite <- Efin. unfold final.
     eapply (FIN e1 (leave e e1) s (snd (iterM (index_stmt files n) b (pushed (k s1) s2))) (ev0 ++ ev1)); auto.
     - apply same_globals_equiv, same_globals_leave.
@@ -957,13 +1076,13 @@ Section CasesB4.
 
   Lemma caseB_defm : forall nm r ps f e s,
       frag_name nm = true -> forallb frag_classref ps = true ->
-      Pre2 f e s -> Stat s -> e_frames e <> [] ->
+      Pre2 f e s -> Stat s -> e_frames e <> [] -> Inh None e s ->
       forallb resolved (fst (spec_stmt f e (SDefm nm r ps))) = true ->
       s_bad (snd (index_stmt files (S n) (SDefm nm r ps) s)) = false ->
       ResB f s (snd (index_stmt files (S n) (SDefm nm r ps) s))
            (fst (spec_stmt f e (SDefm nm r ps))) (snd (spec_stmt f e (SDefm nm r ps))).
   Proof.
-    intros nm r ps f e s Hfn Hfp P T He HR Hb.
+    intros nm r ps f e s Hfn Hfp P T He HI HR Hb.
     pose proof (finish_block_like files (S n) (SDefm nm r ps) f e) as FIN.
     set (final := snd (index_stmt files (S n) (SDefm nm r ps) s)) in *.
     change (spec_stmt f e (SDefm nm r ps)) with
@@ -991,7 +1110,7 @@ Section CasesB4.
     { unfold final. simpl. unfold bind at 1. fold mdid. destruct (mdid s) as [[did|] s1]; reflexivity. }
     destruct (mdid s) as [[did|] s1] eqn:Ed; [|simpl in Hsome; congruence]. simpl in *.
     rewrite Efin in Hb |- *.
-    pose proof (ResB_of_Step f e s s1 _ Sd P T He) as [U0 N0 _ P1 T1 _].
+    pose proof (ResB_of_Step f e s s1 _ Sd P T He HI) as [U0 N0 _ P1 T1 _ I1].
     set (k := KDefm did) in *.
     assert (Hb3 := Hb). apply scoped_bad in Hb3.
     assert (Tp : Stat (pushed k s1)) by (apply Stat_pushed; [exact T1|reflexivity]).
@@ -1007,11 +1126,12 @@ Section CasesB4.
       rewrite Efin. rewrite (scoped_final _ k _ s1 []); [apply sbs_set_scopes|]. rewrite Sc2. now rewrite add_vars_nil.
     - rewrite U2. simpl. rewrite U0. simpl. reflexivity.
     - rewrite N2. unfold nf, pushed; simpl. fold (nf s1). exact N0.
+    - eapply Inh_VRm; [|exact V2]. exact I1.
   Qed.
 End CasesB4.
 
 (** ---------------------------------------------------------------------------------------------
-    record bodies (no parent classes): the innermost scope is the record's, its variables / fields / template
+    record bodies: the innermost scope is the record's, its variables / fields / template
     arguments correspond to the three parts of the innermost frame *)
 Definition AL (s : st) (l : list (name * N)) (l' : list (name * rng)) : Prop :=
   forall nm, match alookup nm l with
@@ -1024,19 +1144,17 @@ Inductive RB (f : N) (e : env) (s : st) (rid : N) : Prop :=
     s_scopes s = mkScope (KRecord rid) vars :: tail ->
     e_frames e = fr :: frs ->
     nthN (s_recs s) rid = Some rc ->
-    rc_parents rc = [] ->
+    lenN (s_recs s) = N.succ rid ->
     AL s vars (fr_vars fr) ->
-    AL s (rc_fields rc) (fr_fields fr) ->
+    FLD s rid (fr_fields fr) ->
     AL s (rc_targs rc) (fr_targs fr) ->
+    Inh (Some rid) e s ->
+    (forall n0 ci, lookup n0 (e_cls e) = Some ci -> find_class s n0 = Some rid -> ci_fields ci = []) ->
     (forall nm d, first_some (frame_lookup nm) frs = Some d ->
                   exists sym, find_local (set_scopes tail s) nm = Some sym /\ define_loc s sym = Some d) ->
     (forall nm, first_some (frame_lookup nm) frs = None -> find_local (set_scopes tail s) nm = None) ->
     current_record_id (set_scopes tail s) = None ->
     RB f e s rid.
-
-Lemma find_field_nopar : forall fuel recs rid rc nm,
-    nthN recs rid = Some rc -> rc_parents rc = [] -> find_field (S fuel) recs rid nm = alookup nm (rc_fields rc).
-Proof. intros fuel recs rid rc nm H Hp. simpl. rewrite H, Hp. destruct (alookup nm (rc_fields rc)); reflexivity. Qed.
 
 Lemma find_local_cons : forall s c t nm, s_scopes s = c :: t ->
     find_local s nm = match scope_find s c nm with Some x => Some x | None => find_local (set_scopes t s) nm end.
@@ -1047,25 +1165,24 @@ Qed.
 
 Lemma RB_Pre2 : forall f e s rid, RB f e s rid -> Pre2g f e s -> Pre2 f e s.
 Proof.
-  intros f e s rid [vars t fr frs rc Hsc Hfe Hrec Hnp Av Af At T1 T2 T3] [F D1 D2 S1 S2 C1 C2 M1 M2].
+  intros f e s rid [vars t fr frs rc Hsc Hfe Hrec Hlast Av Af At HI HS T1 T2 T3] [F D1 D2 S1 S2 C1 C2 M1 M2].
   assert (SF : forall nm, scope_find s (mkScope (KRecord rid) vars) nm
                           = match alookup nm vars with
                             | Some v => Some (SyLeaf v)
-                            | None => match alookup nm (rc_fields rc) with
+                            | None => match find_field (rec_fuel s) (s_recs s) rid nm with
                                       | Some x => Some (SyLeaf x)
                                       | None => option_map SyLeaf (alookup nm (rc_targs rc))
                                       end
                             end).
   { intros nm. unfold scope_find, sc_find_variable. cbn [sc_kind sc_vars].
-    destruct (alookup nm vars); [reflexivity|].
-    unfold rec_fuel. rewrite (find_field_nopar _ _ _ rc nm Hrec Hnp). rewrite Hrec. reflexivity. }
+    destruct (alookup nm vars); [reflexivity|]. rewrite Hrec. reflexivity. }
   split; auto.
   - intros nm d H. unfold locals_of in H. rewrite Hfe in H. simpl in H.
     rewrite (find_local_cons s _ t nm Hsc), SF. unfold frame_lookup in H.
     specialize (Av nm). specialize (Af nm). specialize (At nm).
     destruct (alookup nm vars) as [v|].
     + destruct Av as [lf [A B]]. rewrite B in H. injection H as <-. exists (SyLeaf v). simpl. now rewrite A.
-    + rewrite Av in H. destruct (alookup nm (rc_fields rc)) as [x|].
+    + rewrite Av in H. destruct (find_field (rec_fuel s) (s_recs s) rid nm) as [x|].
       * destruct Af as [lf [A B]]. rewrite B in H. injection H as <-. exists (SyLeaf x). simpl. now rewrite A.
       * rewrite Af in H. destruct (alookup nm (rc_targs rc)) as [y|]; simpl.
         -- destruct At as [lf [A B]]. rewrite B in H. injection H as <-. exists (SyLeaf y). simpl. now rewrite A.
@@ -1074,9 +1191,17 @@ Proof.
     rewrite (find_local_cons s _ t nm Hsc), SF. unfold frame_lookup in H.
     specialize (Av nm). specialize (Af nm). specialize (At nm).
     destruct (alookup nm vars) as [v|]; [destruct Av as [lf [A B]]; rewrite B in H; discriminate|].
-    rewrite Av in H. destruct (alookup nm (rc_fields rc)) as [x|]; [destruct Af as [lf [A B]]; rewrite B in H; discriminate|].
+    rewrite Av in H. destruct (find_field (rec_fuel s) (s_recs s) rid nm) as [x|]; [destruct Af as [lf [A B]]; rewrite B in H; discriminate|].
     rewrite Af in H. destruct (alookup nm (rc_targs rc)) as [y|]; [destruct At as [lf [A B]]; rewrite B in H; discriminate|].
     rewrite At in H. simpl. apply T2. exact H.
+Qed.
+
+Lemma FLD_same_recs : forall s s' cid l,
+    FLD s cid l -> s_recs s' = s_recs s -> (exists ext, s_leaves s' = s_leaves s ++ ext) -> FLD s' cid l.
+Proof.
+  intros s s' cid l H Hr [ext Hl] nm. specialize (H nm). unfold rec_fuel in *. rewrite Hr.
+  destruct (find_field (S (length (s_recs s))) (s_recs s) cid nm) as [id|]; [|exact H].
+  destruct H as [lf [A B]]. exists lf. split; [|exact B]. rewrite Hl. now apply nthN_app_some.
 Qed.
 
 Lemma AL_ext : forall s s' l l', AL s l l' -> (exists ext, s_leaves s' = s_leaves s ++ ext) -> AL s' l l'.
@@ -1105,14 +1230,17 @@ Qed.
 (** values keep the record-body relation *)
 Lemma RB_VR : forall f e s s' rid, RB f e s rid -> VR s s' -> s_scopes s' = s_scopes s -> RB f e s' rid.
 Proof.
-  intros f e s s' rid [vars t fr frs rc Hsc Hfe Hrec Hnp Av Af At T1 T2 T3] V Hs.
+  intros f e s s' rid [vars t fr frs rc Hsc Hfe Hrec Hlast Av Af At HI HS T1 T2 T3] V Hs.
   pose proof V as (Hr & Hm & Hc & Hd & Hmc & Hds & Ht & Hl).
   apply (mkRB f e s' rid vars t fr frs rc); auto.
   - now rewrite Hs.
   - now rewrite Hr.
+  - now rewrite Hr.
   - now apply (AL_ext s s').
+  - now apply (FLD_same_recs s s').
   - now apply (AL_ext s s').
-  - now apply (AL_ext s s').
+  - eapply Inh_VR; eassumption.
+  - intros n0 ci H1 H2. unfold find_class in *. rewrite Hc in H2. eapply HS; eassumption.
   - intros nm d H. destruct (T1 nm d H) as [sym [A B]]. exists sym.
     rewrite (find_local_tail_eq t s s' nm Hm T3). split; [exact A|now apply (define_loc_ext s s')].
   - intros nm H. rewrite (find_local_tail_eq t s s' nm Hm T3). now apply T2.
@@ -1210,24 +1338,134 @@ Proof.
   - intros nm H. unfold find_multiclass in *. rewrite Hmc. now apply M2.
 Qed.
 
+Lemma set_nth_length : forall A (f : A -> A) l k, length (set_nth k f l) = length l.
+Proof. intros A f l. induction l as [|x r IH]; intros [|k]; simpl; auto. Qed.
+
+Lemma ff_par_agree : forall recs recs' nm b k ps, REC recs ->
+    (forall id, id < b -> nthN recs' id = nthN recs id) -> (forall p, In p ps -> p < b) ->
+    ff_par k recs' nm ps = ff_par k recs nm ps.
+Proof.
+  intros recs recs' nm b k ps HR Hag. induction ps as [|p r IH]; intros Hp; [reflexivity|]. simpl.
+  rewrite (ff_agree recs recs' nm b HR Hag k p) by (apply Hp; now left).
+  destruct (find_field k recs p nm); [reflexivity|]. apply IH. intros q Hq. apply Hp. now right.
+Qed.
+
+Lemma lookup_app : forall V nm (a b : list (name * V)),
+    lookup nm (a ++ b) = match lookup nm a with Some x => Some x | None => lookup nm b end.
+Proof.
+  intros V nm a b. induction a as [|[k v] r IH]; [reflexivity|]. simpl. destruct (name_eqb nm k); [reflexivity|exact IH].
+Qed.
+
+(** the open record gets one more own field *)
+Lemma FLD_add_field : forall s s' rid rc nm id lf l,
+    FLD s rid l -> REC (s_recs s) -> nthN (s_recs s) rid = Some rc ->
+    s_recs s' = set_nth (N.to_nat rid) (rec_add_field nm id) (s_recs s) ->
+    (exists ext, s_leaves s' = s_leaves s ++ ext) -> nthN (s_leaves s') id = Some lf ->
+    FLD s' rid ((nm, lf_loc lf) :: l).
+Proof.
+  intros s s' rid rc nm id lf l H HR Hrec Hr [ext Hl] Hid nm'. specialize (H nm').
+  unfold rec_fuel in *. rewrite Hr, set_nth_length. rewrite find_field_S in *.
+  rewrite nthN_set_nth, N.eqb_refl, Hrec in *. cbn [option_map rec_add_field rc_fields rc_parents].
+  rewrite alookup_imap_insert. simpl. destruct (name_eqb nm' nm).
+  - exists lf. auto.
+  - rewrite (ff_par_agree (s_recs s) _ nm' rid _ _ HR).
+    + destruct (match alookup nm' (rc_fields rc) with Some x => Some x | None => ff_par (length (s_recs s)) (s_recs s) nm' (rc_parents rc) end) as [x|];
+        [|exact H]. destruct H as [lf0 [A B]]. exists lf0. split; [|exact B]. rewrite Hl. now apply nthN_app_some.
+    + intros j Hj. rewrite nthN_set_nth. destruct (N.eqb_spec rid j); [lia|reflexivity].
+    + intros p0 Hp0. apply (HR rid rc Hrec p0 Hp0).
+Qed.
+(** ... or something that is not a field *)
+Lemma FLD_same_fields : forall s s' rid rc g l,
+    FLD s rid l -> REC (s_recs s) -> nthN (s_recs s) rid = Some rc ->
+    rc_fields (g rc) = rc_fields rc -> rc_parents (g rc) = rc_parents rc ->
+    s_recs s' = set_nth (N.to_nat rid) g (s_recs s) ->
+    (exists ext, s_leaves s' = s_leaves s ++ ext) ->
+    FLD s' rid l.
+Proof.
+  intros s s' rid rc g l H HR Hrec Hgf Hgp Hr [ext Hl] nm'. specialize (H nm').
+  unfold rec_fuel in *. rewrite Hr, set_nth_length. rewrite find_field_S in *.
+  rewrite nthN_set_nth, N.eqb_refl, Hrec in *. cbn [option_map]. rewrite Hgf, Hgp.
+  rewrite (ff_par_agree (s_recs s) _ nm' rid _ _ HR).
+  - destruct (match alookup nm' (rc_fields rc) with Some x => Some x | None => ff_par (length (s_recs s)) (s_recs s) nm' (rc_parents rc) end) as [x|];
+      [|exact H]. destruct H as [lf0 [A B]]. exists lf0. split; [|exact B]. rewrite Hl. now apply nthN_app_some.
+  - intros j Hj. rewrite nthN_set_nth. destruct (N.eqb_spec rid j); [lia|reflexivity].
+  - intros p0 Hp0. apply (HR rid rc Hrec p0 Hp0).
+Qed.
+(** ... or one more parent, whose fields come behind what the record already has *)
+Lemma FLD_add_parent : forall s s' rid rc cid l lc,
+    FLD s rid l -> FLD s cid lc -> REC (s_recs s) -> nthN (s_recs s) rid = Some rc -> cid < rid ->
+    s_recs s' = set_nth (N.to_nat rid) (rec_add_parent cid) (s_recs s) ->
+    (exists ext, s_leaves s' = s_leaves s ++ ext) ->
+    FLD s' rid (l ++ lc).
+Proof.
+  intros s s' rid rc cid l lc H Hc HR Hrec Hlt Hr [ext Hl] nm'. specialize (H nm'). specialize (Hc nm').
+  assert (Vr : (N.to_nat rid < length (s_recs s))%nat) by (eapply nthN_some_lt; eassumption).
+  assert (Hag : forall j, j < rid -> nthN (set_nth (N.to_nat rid) (rec_add_parent cid) (s_recs s)) j = nthN (s_recs s) j).
+  { intros j Hj. rewrite nthN_set_nth. destruct (N.eqb_spec rid j); [lia|reflexivity]. }
+  unfold rec_fuel in *. rewrite Hr, set_nth_length. rewrite find_field_S in H |- *.
+  rewrite nthN_set_nth, N.eqb_refl, Hrec in *. cbn [option_map rec_add_parent rc_fields rc_parents].
+  rewrite lookup_app, ff_par_app.
+  rewrite (ff_par_agree (s_recs s) _ nm' rid _ _ HR Hag) by (intros p0 Hp0; apply (HR rid rc Hrec p0 Hp0)).
+  simpl. rewrite (ff_agree (s_recs s) _ nm' rid HR Hag _ cid Hlt).
+  rewrite (ff_fuel (s_recs s) nm' HR (length (s_recs s)) (S (length (s_recs s))) cid) by lia.
+  assert (Hold : forall x, (exists lf0, nthN (s_leaves s) x = Some lf0 /\ lookup nm' l = Some (lf_loc lf0)) ->
+                         exists lf0, nthN (s_leaves s') x = Some lf0 /\
+                                     match lookup nm' l with Some x0 => Some x0 | None => lookup nm' lc end = Some (lf_loc lf0)).
+  { intros x [lf0 [A B]]. exists lf0. rewrite B. split; [|reflexivity]. rewrite Hl. now apply nthN_app_some. }
+  destruct (alookup nm' (rc_fields rc)) as [x|]; [now apply Hold|].
+  destruct (ff_par (length (s_recs s)) (s_recs s) nm' (rc_parents rc)) as [x|]; [now apply Hold|].
+  rewrite H. destruct (find_field (S (length (s_recs s))) (s_recs s) cid nm') as [x|]; [|exact Hc].
+  destruct Hc as [lf0 [A B]]. exists lf0. split; [|exact B]. rewrite Hl. now apply nthN_app_some.
+Qed.
+
+(** the classes other than the open record keep their field tables when the open (newest) record changes *)
+Lemma Inh_rec_update : forall e e' s s' rid g,
+    Inh (Some rid) e s -> rec_update s s' rid g -> lenN (s_recs s) = N.succ rid ->
+    (forall r p, In p (rc_parents (g r)) -> In p (rc_parents r) \/ p < rid) ->
+    e_cls e' = e_cls e -> Inh (Some rid) e' s'.
+Proof.
+  intros e e' s s' rid g [HR HC] U Hlast Hg He.
+  pose proof U as (Hs & Hm & Ht & Hc & Hd & Hmc & Hds & Hl & Hr).
+  assert (Hag : forall j, j < rid -> nthN (s_recs s') j = nthN (s_recs s) j).
+  { intros j Hj. rewrite Hr, nthN_set_nth. destruct (N.eqb_spec rid j); [lia|reflexivity]. }
+  split.
+  - intros id rc' H p0 Hp0. rewrite Hr, nthN_set_nth in H. destruct (N.eqb_spec rid id) as [<-|Hne].
+    + destruct (nthN (s_recs s) rid) as [rc|] eqn:E; [|discriminate]. simpl in H. injection H as <-.
+      destruct (Hg rc p0 Hp0) as [Hin|Hlt]; [apply (HR rid rc E p0 Hin)|exact Hlt].
+    + apply (HR id rc' H p0 Hp0).
+  - intros nm ci H. rewrite He in H. destruct (HC nm ci H) as (cid & A & B & C).
+    exists cid. unfold find_class in *. rewrite Hc. split; [exact A|]. split.
+    + rewrite Hr, nthN_set_nth. destruct (N.eqb rid cid); [|exact B].
+      destruct (nthN (s_recs s) cid); [discriminate|congruence].
+    + intros Ho. specialize (C Ho).
+      assert (Hlt : cid < rid).
+      { destruct (nthN (s_recs s) cid) as [rc|] eqn:E; [|congruence]. apply nthN_some_lt in E.
+        assert (cid <> rid) by congruence. unfold lenN in Hlast. lia. }
+      apply (FLD_mono s s' cid (ci_fields ci) rid); auto.
+Qed.
+
 Lemma RB_rec_update : forall f e e' s s' rid g,
     RB f e s rid -> rec_update s s' rid g ->
-    (forall r, rc_loc (g r) = rc_loc r) -> (forall r, rc_parents (g r) = rc_parents r) ->
+    (forall r, rc_loc (g r) = rc_loc r) ->
+    (forall r p, In p (rc_parents (g r)) -> In p (rc_parents r) \/ p < rid) ->
+    e_cls e' = e_cls e ->
     (forall vars t fr frs rc,
         s_scopes s = mkScope (KRecord rid) vars :: t -> e_frames e = fr :: frs -> nthN (s_recs s) rid = Some rc ->
-        AL s (rc_fields rc) (fr_fields fr) -> AL s (rc_targs rc) (fr_targs fr) ->
+        FLD s rid (fr_fields fr) -> AL s (rc_targs rc) (fr_targs fr) ->
         exists fr', e_frames e' = fr' :: frs /\ fr_vars fr' = fr_vars fr /\
-                    AL s' (rc_fields (g rc)) (fr_fields fr') /\ AL s' (rc_targs (g rc)) (fr_targs fr')) ->
+                    FLD s' rid (fr_fields fr') /\ AL s' (rc_targs (g rc)) (fr_targs fr')) ->
     RB f e' s' rid.
 Proof.
-  intros f e e' s s' rid g [vars t fr frs rc Hsc Hfe Hrec Hnp Av Af At T1 T2 T3] U Hg Hp Hnew.
+  intros f e e' s s' rid g [vars t fr frs rc Hsc Hfe Hrec Hlast Av Af At HI HS T1 T2 T3] U Hg Hp He Hnew.
   pose proof U as (Hs & Hm & Ht & Hc & Hd & Hmc & Hds & Hl & Hr).
   destruct (Hnew vars t fr frs rc Hsc Hfe Hrec Af At) as (fr' & Hfe' & Hv' & Af' & At').
   apply (mkRB f e' s' rid vars t fr' frs (g rc)); auto.
   - now rewrite Hs.
   - rewrite Hr, nthN_set_nth, N.eqb_refl, Hrec. reflexivity.
-  - now rewrite Hp.
+  - unfold lenN in *. now rewrite Hr, set_nth_length.
   - rewrite Hv'. now apply (AL_ext s s').
+  - eapply Inh_rec_update; eassumption.
+  - intros n0 ci H1 H2. unfold find_class in *. rewrite Hc in H2. rewrite He in H1. eapply HS; eassumption.
   - intros nm d H. destruct (T1 nm d H) as [sym [A B]]. exists sym.
     rewrite (find_local_tail_eq t s s' nm Hm T3). split; [exact A|]. eapply define_loc_rec_update; eassumption.
   - intros nm H. rewrite (find_local_tail_eq t s s' nm Hm T3). now apply T2.
@@ -1237,12 +1475,14 @@ Record ResR (f : N) (s s' : st) (E : list ev) (e' : env) (rid : N) : Prop := mkR
   rr_uses : s_uses s' = rev E ++ s_uses s;
   rr_nf : nf s' = nf s;
   rr_rb : RB f e' s' rid;
-  rr_g : Pre2g f e' s' }.
+  rr_g : Pre2g f e' s';
+  rr_ncls : s_nclass s' = s_nclass s }.
 Lemma ResR_trans : forall f a b c E1 E2 e1 e2 rid,
     ResR f a b E1 e1 rid -> ResR f b c E2 e2 rid -> ResR f a c (E1 ++ E2) e2 rid.
 Proof.
-  intros f a b c E1 E2 e1 e2 rid [U1 N1 _ _] [U2 N2 R2 G2]. split; auto.
+  intros f a b c E1 E2 e1 e2 rid [U1 N1 _ _ C1] [U2 N2 R2 G2 C2]. split; auto.
   - rewrite U2, U1, rev_app_distr, app_assoc. reflexivity.
+  - congruence.
   - congruence.
 Qed.
 Lemma ResR_of_Step : forall f e s s' E rid,
@@ -1251,12 +1491,20 @@ Proof.
   intros f e s s' E rid [U V Sc N] R G. split; auto.
   - eapply RB_VR; eassumption.
   - eapply Pre2g_VR; eassumption.
+  - now destruct V as (_ & _ & Hc & _).
 Qed.
 
 Lemma RB_current : forall f e s rid, RB f e s rid -> current_record_id s = Some rid.
-Proof. intros f e s rid [vars t fr frs rc Hsc _ _ _ _ _ _ _ _ _]. unfold current_record_id. rewrite Hsc. reflexivity. Qed.
+Proof. intros f e s rid [vars t fr frs rc Hsc _ _ _ _ _ _ _ _ _ _ _]. unfold current_record_id. rewrite Hsc. reflexivity. Qed.
 Lemma RB_valid : forall f e s rid, RB f e s rid -> exists rc, nthN (s_recs s) rid = Some rc.
-Proof. intros f e s rid [vars t fr frs rc _ _ Hrec _ _ _ _ _ _ _]. eauto. Qed.
+Proof. intros f e s rid [vars t fr frs rc _ _ Hrec _ _ _ _ _ _ _ _ _]. eauto. Qed.
+Lemma RB_inh : forall f e s rid, RB f e s rid -> Inh (Some rid) e s.
+Proof. intros f e s rid [vars t fr frs rc _ _ _ _ _ _ _ HI _ _ _ _]. exact HI. Qed.
+Lemma RB_self : forall f e s rid, RB f e s rid ->
+    forall n0 ci, lookup n0 (e_cls e) = Some ci -> find_class s n0 = Some rid -> ci_fields ci = [].
+Proof. intros f e s rid [vars t fr frs rc _ _ _ _ _ _ _ _ HS _ _ _]. exact HS. Qed.
+Lemma RB_last : forall f e s rid, RB f e s rid -> lenN (s_recs s) = N.succ rid.
+Proof. intros f e s rid [vars t fr frs rc _ _ _ Hl _ _ _ _ _ _ _ _]. exact Hl. Qed.
 
 (** the state after `add_leaf l; record_mut rid g` for an existing record *)
 Lemma leaf_then_mut : forall s l rid g rc,
@@ -1301,15 +1549,20 @@ Proof.
   fold s3 in U, Hu, Hn, Hl.
   assert (Hext : exists ext, s_leaves s3 = s_leaves s ++ ext) by (eexists; exact Hl).
   assert (Hid : nthN (s_leaves s3) (lenN (s_leaves s)) = Some l) by (rewrite Hl; apply nthN_app_last).
+  pose proof (RB_inh _ _ _ _ R) as [HREC _].
+  pose proof U as (_ & _ & _ & _ & _ & _ & _ & _ & Hr3).
   split; auto.
   - eapply (RB_rec_update f e _ s s3 rid _ R U); try reflexivity.
-    intros vars t fr frs rc0 Hsc Hfe Hrec Af At.
-    exists (mkFrame (fr_vars fr) ((lf_name l, lf_loc l) :: fr_fields fr) (fr_targs fr)).
-    split; [now apply add_field_frames|]. split; [reflexivity|]. split.
-    + simpl. now apply (AL_insert s s3).
-    + simpl. now apply (AL_ext s s3).
+    + intros r p Hp. left. exact Hp.
+    + destruct (same_globals_add_field e (lf_name l) (lf_loc l)) as (A & _). now rewrite A.
+    + intros vars t fr frs rc0 Hsc Hfe Hrec Af At.
+      exists (mkFrame (fr_vars fr) ((lf_name l, lf_loc l) :: fr_fields fr) (fr_targs fr)).
+      split; [now apply add_field_frames|]. split; [reflexivity|]. split.
+      * simpl. eapply (FLD_add_field s s3 rid rc0); eassumption.
+      * simpl. now apply (AL_ext s s3).
   - eapply (Pre2g_globals f e); [apply same_globals_add_field|].
     eapply Pre2g_rec_update; [exact G|exact U|reflexivity].
+  - now destruct U as (_ & _ & _ & Hc & _).
 Qed.
 Lemma RB_add_targ : forall f e s rid l,
     RB f e s rid -> Pre2g f e s ->
@@ -1322,15 +1575,20 @@ Proof.
   fold s3 in U, Hu, Hn, Hl.
   assert (Hext : exists ext, s_leaves s3 = s_leaves s ++ ext) by (eexists; exact Hl).
   assert (Hid : nthN (s_leaves s3) (lenN (s_leaves s)) = Some l) by (rewrite Hl; apply nthN_app_last).
+  pose proof (RB_inh _ _ _ _ R) as [HREC _].
+  pose proof U as (_ & _ & _ & _ & _ & _ & _ & _ & Hr3).
   split; auto.
   - eapply (RB_rec_update f e _ s s3 rid _ R U); try reflexivity.
-    intros vars t fr frs rc0 Hsc Hfe Hrec Af At.
-    exists (mkFrame (fr_vars fr) (fr_fields fr) ((lf_name l, lf_loc l) :: fr_targs fr)).
-    split; [now apply add_targ_frames|]. split; [reflexivity|]. split.
-    + simpl. now apply (AL_ext s s3).
-    + simpl. now apply (AL_insert s s3).
+    + intros r p Hp. left. exact Hp.
+    + destruct (same_globals_add_targ e (lf_name l) (lf_loc l)) as (A & _). now rewrite A.
+    + intros vars t fr frs rc0 Hsc Hfe Hrec Af At.
+      exists (mkFrame (fr_vars fr) (fr_fields fr) ((lf_name l, lf_loc l) :: fr_targs fr)).
+      split; [now apply add_targ_frames|]. split; [reflexivity|]. split.
+      * simpl. apply (FLD_same_fields s s3 rid rc0 (rec_add_targ (lf_name l) (lenN (s_leaves s))) _ Af HREC Hrec); [reflexivity|reflexivity|exact Hr3|exact Hext].
+      * simpl. now apply (AL_insert s s3).
   - eapply (Pre2g_globals f e); [apply same_globals_add_targ|].
     eapply Pre2g_rec_update; [exact G|exact U|reflexivity].
+  - now destruct U as (_ & _ & _ & Hc & _).
 Qed.
 
 Lemma AL_cons : forall s s' l l' nm0 id lf,
@@ -1347,7 +1605,7 @@ Lemma RB_with_var : forall f e s rid l,
     ResR f s (with_var s l) [] (add_var e (lf_name l) (lf_loc l)) rid.
 Proof.
   intros f e s rid l R G.
-  destruct R as [vars t fr frs rc Hsc Hfe Hrec Hnp Av Af At T1 T2 T3].
+  destruct R as [vars t fr frs rc Hsc Hfe Hrec Hlast Av Af At HI HS T1 T2 T3].
   destruct (with_var_facts s l _ _ Hsc) as (Hsc' & Hl & Hu & Hn & V).
   pose proof V as (Hr & Hm & _).
   assert (Hext : exists ext, s_leaves (with_var s l) = s_leaves s ++ ext) by (eexists; exact Hl).
@@ -1357,13 +1615,18 @@ Proof.
                  (mkFrame ((lf_name l, lf_loc l) :: fr_vars fr) (fr_fields fr) (fr_targs fr)) frs rc); auto.
     + unfold add_var. rewrite Hfe. reflexivity.
     + now rewrite Hr.
+    + now rewrite Hr.
     + simpl. now apply (AL_cons s (with_var s l)).
+    + simpl. now apply (FLD_same_recs s (with_var s l)).
     + simpl. now apply (AL_ext s (with_var s l)).
-    + simpl. now apply (AL_ext s (with_var s l)).
+    + eapply (Inh_globals _ e); [apply same_globals_add_var|]. eapply Inh_VR; eassumption.
+    + intros n0 ci H1 H2. destruct V as (_ & _ & Hc & _). unfold find_class in *. rewrite Hc in H2.
+      eapply HS; [|exact H2]. destruct (same_globals_add_var e (lf_name l) (lf_loc l)) as (A & _). now rewrite <- A.
     + intros nm d H. destruct (T1 nm d H) as [sym [A B]]. exists sym.
       rewrite (find_local_tail_eq t s (with_var s l) nm Hm T3). split; [exact A|now apply (define_loc_ext s _ _ _ V)].
     + intros nm H. rewrite (find_local_tail_eq t s (with_var s l) nm Hm T3). now apply T2.
   - eapply (Pre2g_globals f e); [apply same_globals_add_var|]. eapply Pre2g_VR; eassumption.
+  - now destruct V as (_ & _ & Hc & _).
 Qed.
 
 Lemma RB_Pre : forall f e s rid, RB f e s rid -> Pre2g f e s -> Pre f e s.
@@ -1472,12 +1735,12 @@ Proof.
     pose proof (RB_Pre _ _ _ _ R G) as P.
     pose proof (ty_sim t f e s P HRt) as St. pose proof (ty_sim_some t f e s P HRt) as Hts.
     destruct (index_ty t s) as [[typ|] s1] eqn:Et; [|simpl in Hts; congruence]. simpl in St.
-    pose proof (ResR_of_Step f e s s1 _ rid St R G) as R1. pose proof R1 as [_ _ Rb1 G1].
+    pose proof (ResR_of_Step f e s s1 _ rid St R G) as R1. pose proof R1 as [_ _ Rb1 G1 _].
     set (lf := mkLeaf LField (i_name i) typ false loc) in *.
     pose proof (RB_add_field f e s1 rid lf Rb1 G1) as R2.
     assert (Ee : add_field e (lf_name lf) (lf_loc lf) = e1) by (unfold e1, lf; simpl; now rewrite Hloc).
     rewrite Ee in R2. change (ResR f s1 (after_decl s1 rid lf) [] e1 rid) in R2.
-    set (s3 := after_decl s1 rid lf) in *. pose proof R2 as [_ _ Rb3 G3].
+    set (s3 := after_decl s1 rid lf) in *. pose proof R2 as [_ _ Rb3 G3 _].
     destruct v as [v|]; simpl in Hf, HRv |- *.
     + destruct (index_value n v s3) as [[vt|] s4] eqn:Ev.
       * assert (Hb4 : s_bad s4 = false) by (destruct (can_cast s4 vt typ); simpl in Hb; exact Hb).
@@ -1487,7 +1750,7 @@ Proof.
         destruct (can_cast s4 vt typ).
         -- eapply ResR_trans; [exact R1|]. change (spec_value f e1 v) with ([] ++ spec_value f e1 v).
            eapply ResR_trans; [exact R2|exact R4].
-        -- pose proof R4 as [_ _ Rb4 G4].
+        -- pose proof R4 as [_ _ Rb4 G4 _].
            pose proof (err_ResR f e1 s4 rid (value_rng v) DFieldIncompat eq_refl Rb4 G4) as R5.
            eapply ResR_trans; [exact R1|]. change (spec_value f e1 v) with ([] ++ spec_value f e1 v).
            eapply ResR_trans; [exact R2|]. rewrite <- (app_nil_r (spec_value f e1 v)).
@@ -1510,28 +1773,26 @@ Proof.
     set (loc := mkR (current_file s) (r_lo (i_rng i)) (r_hi (i_rng i))) in *.
     assert (Hloc : loc = at_file f (i_rng i)) by (unfold loc, at_file; now rewrite (g_file f e s G)).
     (* the field exists: the specification resolved it among the fields of the innermost frame *)
-    destruct R as [vars t fr frs rc Hsc Hfe Hrec Hnp Av Af At T1 T2 T3] eqn:ER.
+    destruct R as [vars t fr frs rc Hsc Hfe Hrec Hlast Av Af At HI HS T1 T2 T3] eqn:ER.
     assert (Htop : top_fields e = fr_fields fr) by (unfold top_fields; now rewrite Hfe).
     rewrite Htop in *.
     destruct (lookup (i_name i) (fr_fields fr)) as [d|] eqn:El; [|discriminate].
-    assert (Hff : find_field (rec_fuel s) (s_recs s) rid (i_name i) = alookup (i_name i) (rc_fields rc)).
-    { unfold rec_fuel. apply (find_field_nopar _ _ _ rc); assumption. }
-    rewrite Hff in *. pose proof (Af (i_name i)) as Afi.
-    destruct (alookup (i_name i) (rc_fields rc)) as [fid|]; [|congruence].
+    pose proof (Af (i_name i)) as Afi.
+    destruct (find_field (rec_fuel s) (s_recs s) rid (i_name i)) as [fid|]; [|congruence].
     destruct Afi as [fl [Hfl Hd]]. rewrite Hfl in *.
     assert (Hdd : d = lf_loc fl) by congruence. subst d.
     set (lf := mkLeaf LField (i_name i) (lf_ty fl) false loc) in *.
-    pose proof (RB_add_field f e s rid lf (mkRB f e s rid vars t fr frs rc Hsc Hfe Hrec Hnp Av Af At T1 T2 T3) G) as R2.
+    pose proof (RB_add_field f e s rid lf (mkRB f e s rid vars t fr frs rc Hsc Hfe Hrec Hlast Av Af At HI HS T1 T2 T3) G) as R2.
     assert (Ee : add_field e (lf_name lf) (lf_loc lf) = e1) by (unfold e1, lf; simpl; now rewrite Hloc).
     rewrite Ee in R2. change (ResR f s (after_decl s rid lf) [] e1 rid) in R2.
-    set (s3 := after_decl s rid lf) in *. pose proof R2 as [_ _ Rb3 G3].
+    set (s3 := after_decl s rid lf) in *. pose proof R2 as [_ _ Rb3 G3 _].
     pose proof (Step_add_reference s3 (SyLeaf fid) loc) as Sr.
     set (s4 := snd (add_reference (SyLeaf fid) loc s3)) in *.
     assert (Hdl : define_loc s3 (SyLeaf fid) = Some (lf_loc fl)).
     { destruct (leaf_then_mut s lf rid (rec_add_field (lf_name lf) (lenN (s_leaves s))) rc Hrec) as (_ & _ & _ & Hl3 & _).
       simpl. fold (after_decl s rid lf) in Hl3. fold s3 in Hl3. rewrite Hl3, (nthN_app_some _ _ _ _ _ Hfl). reflexivity. }
     rewrite Hdl, Hloc in Sr.
-    pose proof (ResR_of_Step f e1 s3 s4 _ rid Sr Rb3 G3) as R3. pose proof R3 as [_ _ Rb4 G4].
+    pose proof (ResR_of_Step f e1 s3 s4 _ rid Sr Rb3 G3) as R3. pose proof R3 as [_ _ Rb4 G4 _].
     destruct (index_value n v s4) as [[vt|] s5] eqn:Ev.
     + assert (Hb5 : s_bad s5 = false) by (destruct (can_cast s5 vt (lf_ty fl)); simpl in Hb; exact Hb).
       assert (R5 : ResR f s4 s5 (spec_value f e1 v) e1 rid).
@@ -1541,7 +1802,7 @@ Proof.
       * change ((at_file f (i_rng i), Some (lf_loc fl)) :: spec_value f e1 v)
           with ([] ++ ([(at_file f (i_rng i), Some (lf_loc fl))] ++ spec_value f e1 v)).
         eapply ResR_trans; [exact R2|]. eapply ResR_trans; [exact R3|exact R5].
-      * pose proof R5 as [_ _ Rb5 G5].
+      * pose proof R5 as [_ _ Rb5 G5 _].
         pose proof (err_ResR f e1 s5 rid (value_rng v) DFieldIncompat eq_refl Rb5 G5) as R6.
         change ((at_file f (i_rng i), Some (lf_loc fl)) :: spec_value f e1 v)
           with ([] ++ ([(at_file f (i_rng i), Some (lf_loc fl))] ++ spec_value f e1 v)).
@@ -1561,7 +1822,7 @@ Proof.
     assert (Hb1 : s_bad s1 = false) by (eapply (bad_false_before _ (scopes_add_variable l)); [bm_prim|exact Hb]).
     assert (R1 : ResR f s s1 (spec_value f e v) e rid).
     { replace s1 with (snd (index_value n v s)) by now rewrite E1. apply value_ResR; auto. now rewrite E1. }
-    pose proof R1 as [_ _ Rb1 G1]. fold (with_var s1 l).
+    pose proof R1 as [_ _ Rb1 G1 _]. fold (with_var s1 l).
     pose proof (RB_with_var f e s1 rid l Rb1 G1) as R2. simpl in R2.
     assert (Hloc : {| r_file := current_file s; r_lo := r_lo (i_rng i); r_hi := r_hi (i_rng i) |} = at_file f (i_rng i))
       by (unfold at_file; now rewrite (g_file f e s G)).
@@ -1572,7 +1833,7 @@ Proof.
     unfold seq in *. simpl in *.
     assert (Hb1 : s_bad (snd (index_value n m s)) = false)
       by (eapply (bad_false_before _ (index_value n c)); [apply BM_index_value|exact Hb]).
-    pose proof (value_ResR n m f e s rid Hfm R G HR1 Hb1) as R1. pose proof R1 as [_ _ Rb1 G1].
+    pose proof (value_ResR n m f e s rid Hfm R G HR1 Hb1) as R1. pose proof R1 as [_ _ Rb1 G1 _].
     eapply ResR_trans; [exact R1|]. apply value_ResR; auto.
   - (* dump *)
     simpl in Hf, HR, Hb |- *. unfold seq in *. simpl in *. apply value_ResR; auto.
@@ -1596,7 +1857,7 @@ Proof.
     { eapply (bad_false_before _ (iterM (index_item n) r)); [|exact Hb].
       apply (resp_iterM BadMono BM_refl BM_trans). intros; apply BMi. }
     pose proof (item_sim n it f e s rid Hf1 R G) as R1. rewrite E1 in R1. simpl in R1. specialize (R1 HR1 Hb1).
-    pose proof R1 as [_ _ Rb1 G1].
+    pose proof R1 as [_ _ Rb1 G1 _].
     pose proof (IHl f e1 _ rid Hf2 Rb1 G1) as R2. rewrite E2 in R2. simpl in R2. specialize (R2 HR2 Hb).
     eapply ResR_trans; eassumption.
 Qed.
@@ -1650,13 +1911,13 @@ Proof.
   pose proof (RB_Pre _ _ _ _ R G) as P.
   pose proof (ty_sim t f e s P HRt) as St. pose proof (ty_sim_some t f e s P HRt) as Hts.
   destruct (index_ty t s) as [[typ|] s1] eqn:Et; [|simpl in Hts; congruence]. simpl in St.
-  pose proof (ResR_of_Step f e s s1 _ rid St R G) as R1. pose proof R1 as [_ _ Rb1 G1].
+  pose proof (ResR_of_Step f e s s1 _ rid St R G) as R1. pose proof R1 as [_ _ Rb1 G1 _].
   set (lf := mkLeaf LTArg (i_name i) typ match d with Some _ => true | None => false end loc) in *.
   pose proof (RB_add_targ f e s1 rid lf Rb1 G1) as R2.
   assert (Ee : add_targ e (lf_name lf) (lf_loc lf) = e1) by (unfold e1, lf; simpl; now rewrite Hloc).
   rewrite Ee in R2. simpl in R2.
   set (s3 := snd (record_mut rid (rec_add_targ (i_name i) (lenN (s_leaves s1))) (snd (add_leaf lf s1)))) in *.
-  pose proof R2 as [_ _ Rb3 G3].
+  pose proof R2 as [_ _ Rb3 G3 _].
   destruct d as [v|]; simpl in Hf, HRv |- *.
   - eapply ResR_trans; [exact R1|]. change (spec_value f e1 v) with ([] ++ spec_value f e1 v).
     eapply ResR_trans; [exact R2|]. apply value_ResR; assumption.
@@ -1681,7 +1942,7 @@ Proof.
     { eapply (bad_false_before _ (iterM (index_targ n) r)); [|exact Hb].
       apply (resp_iterM BadMono BM_refl BM_trans). intros; apply BMi. }
     pose proof (targ_sim n a f e s rid Hf1 R G) as R1. rewrite E1 in R1. simpl in R1. specialize (R1 HR1 Hb1).
-    pose proof R1 as [_ _ Rb1 G1].
+    pose proof R1 as [_ _ Rb1 G1 _].
     pose proof (IHl f e1 _ rid Hf2 Rb1 G1) as R2. rewrite E2 in R2. simpl in R2. specialize (R2 HR2 Hb).
     eapply ResR_trans; eassumption.
 Qed.
@@ -1764,13 +2025,17 @@ Lemma RB_start : forall f e e0 s s1 rid nm cls loc,
     Pre2 f e s -> Stat s -> e_frames e0 = e_frames e ->
     s_scopes s1 = s_scopes s -> s_mcs s1 = s_mcs s -> s_leaves s1 = s_leaves s ->
     s_recs s1 = s_recs s ++ [mkRec nm cls [] [] [] loc] -> rid = lenN (s_recs s) ->
+    Inh (Some rid) e0 s1 ->
+    (forall n0 ci, lookup n0 (e_cls e0) = Some ci -> find_class s1 n0 = Some rid -> ci_fields ci = []) ->
     RB f (push_vars e0 []) (pushed (KRecord rid) s1) rid.
 Proof.
-  intros f e e0 s s1 rid nm cls loc [F L1 L2 _ _ _ _ _ _ _ _] [Hnr _ _] Hfe Hsc Hm Hl Hr ->.
+  intros f e e0 s s1 rid nm cls loc [F L1 L2 _ _ _ _ _ _ _ _] [Hnr _ _] Hfe Hsc Hm Hl Hr -> HI HS.
+  assert (Hnew : nthN (s_recs (pushed (KRecord (lenN (s_recs s))) s1)) (lenN (s_recs s)) = Some (mkRec nm cls [] [] [] loc)).
+  { unfold pushed; simpl. rewrite Hr. apply nthN_app_last. }
   apply (mkRB f _ _ _ [] (s_scopes s1) (mkFrame [] [] []) (e_frames e0) (mkRec nm cls [] [] [] loc)); auto.
-  - unfold pushed; simpl. rewrite Hr. apply nthN_app_last.
+  - unfold pushed; simpl. rewrite Hr. unfold lenN. rewrite app_length. simpl. lia.
   - intros n0. reflexivity.
-  - intros n0. reflexivity.
+  - intros n0. unfold rec_fuel. rewrite find_field_S, Hnew. reflexivity.
   - intros n0. reflexivity.
   - intros n0 d H. rewrite Hfe in H. destruct (L1 n0 d H) as [sym [A B]]. exists sym. split.
     + rewrite <- A. unfold find_local; simpl. rewrite Hsc.
@@ -1831,6 +2096,345 @@ Qed.
 Lemma Pre2g_pushed : forall f e s k, Pre2g f e s -> Pre2g f (push_vars e []) (pushed k s).
 Proof. intros f e s k [F D1 D2 S1 S2 C1 C2 M1 M2]. split; auto. Qed.
 
+(** ---------------------------------------------------------------------------------------------
+    parent classes of a record *)
+Lemma clsref_eq : forall n i args r s cid rc,
+    find_class s (i_name i) = Some cid ->
+    let loc := mkR (current_file s) (r_lo (i_rng i)) (r_hi (i_rng i)) in
+    let s1 := snd (add_reference (SyRecord cid) loc s) in
+    nthN (s_recs s1) cid = Some rc ->
+    resolve_class_ref_as_class n (CRef i args r) s
+    = match mapM_opt (index_arg n) args s1 with
+      | (Some avs, s2) => (Some cid, snd (emit (check_template_args s2 (targ_leaves s1 (rc_targs rc)) avs r) s2))
+      | (None, s2) => (None, s2)
+      end.
+Proof.
+  intros n i args r s cid rc Hf loc s1 Hrc. unfold resolve_class_ref_as_class.
+  unfold bind at 1. unfold here at 1, get at 1. cbn [fst snd].
+  unfold bind at 1. unfold state at 1, get at 1. cbn [fst snd]. rewrite Hf.
+  unfold seq at 1. fold loc. fold s1.
+  unfold bind at 1. unfold state at 1, get at 1. cbn [fst snd].
+  unfold bind at 1. unfold lift at 1. rewrite Hrc.
+  unfold bind at 1. unfold index_args.
+  destruct (mapM_opt (index_arg n) args s1) as [[avs|] s2]; [|reflexivity].
+  unfold bind at 1. unfold state at 1, get at 1. cbn [fst snd].
+  unfold seq, ret. reflexivity.
+Qed.
+
+Lemma clsref_sim : forall n i args r f e s,
+    frag_classref (CRef i args r) = true -> Pre f e s ->
+    forallb resolved (spec_classref f e (CRef i args r)) = true ->
+    s_bad (snd (resolve_class_ref_as_class n (CRef i args r) s)) = false ->
+    Step s (snd (resolve_class_ref_as_class n (CRef i args r) s)) (spec_classref f e (CRef i args r)) /\
+    exists cid, fst (resolve_class_ref_as_class n (CRef i args r) s) = Some cid /\ find_class s (i_name i) = Some cid.
+Proof.
+  intros n i args r f e s Hf P HR Hb. simpl in Hf.
+  change (spec_classref f e (CRef i args r)) with ((at_file f (i_rng i), lookup_class e (i_name i)) :: spec_args f e args) in *.
+  simpl in HR. apply andb_true_iff in HR. destruct HR as [HR1 HR2]. unfold resolved in HR1; simpl in HR1.
+  destruct (lookup_class e (i_name i)) as [d|] eqn:El; [|discriminate].
+  pose proof (pre_cls_some f e s P _ _ El) as Hc. unfold class_view in Hc.
+  destruct (find_class s (i_name i)) as [cid|] eqn:Ef; [|discriminate].
+  set (loc := mkR (current_file s) (r_lo (i_rng i)) (r_hi (i_rng i))) in *.
+  pose proof (Step_add_reference s (SyRecord cid) loc) as S1.
+  set (s1 := snd (add_reference (SyRecord cid) loc s)) in *.
+  assert (E1 : define_loc s (SyRecord cid) = Some d) by exact Hc.
+  assert (Hrc : exists rc, nthN (s_recs s1) cid = Some rc).
+  { destruct S1 as [_ (Hr & _) _ _]. rewrite Hr. simpl in E1. destruct (nthN (s_recs s) cid) as [rc|]; [eauto|discriminate]. }
+  destruct Hrc as [rc Hrc].
+  rewrite (clsref_eq n i args r s cid rc Ef Hrc) in *. fold loc in Hb |- *. fold s1 in Hb |- *.
+  assert (P1 : Pre f e s1) by (eapply Pre_Step; eassumption).
+  assert (S2 : s_bad (snd (mapM_opt (index_arg n) args s1)) = false ->
+               Step s1 (snd (mapM_opt (index_arg n) args s1)) (flat_map (spec_arg f e) args)).
+  { intros Hb2. destruct (mapM_opt_state _ _ (index_arg n) args s1) as [E _]. rewrite E in *.
+    apply (iter_sim _ _ (index_arg n) (spec_arg f e) f e); auto.
+    - intros; apply BM_index_arg.
+    - intros x s0 Hin P0 HR0 Hb0. apply arg_agrees; auto. eapply forallb_In; eassumption. }
+  destruct (mapM_opt (index_arg n) args s1) as [[avs|] s2] eqn:Em; simpl in *.
+  2:{ destruct (mapM_opt_state _ _ (index_arg n) args s1) as [_ Hsome]. rewrite Em in Hsome. simpl in Hsome. congruence. }
+  assert (Hb2 : s_bad s2 = false).
+  { eapply (bad_false_before _ (emit (check_template_args s2 (targ_leaves s1 (rc_targs rc)) avs r))); [|exact Hb].
+    unfold emit. apply (resp_iterM BadMono BM_refl BM_trans). intros; apply BM_err. }
+  split; [|exists cid; split; reflexivity].
+  eapply Step_eq.
+  - eapply Step_trans; [exact S1|]. eapply Step_trans; [apply S2; exact Hb2|].
+    apply Step_emit. intros d0 Hd0. eapply cta_kinds. exact Hd0.
+  - simpl. rewrite E1, app_nil_r. unfold at_file, loc. now rewrite (pre_file f e s P).
+Qed.
+
+Lemma record_mut_facts : forall s rid g rc,
+    nthN (s_recs s) rid = Some rc ->
+    rec_update s (snd (record_mut rid g s)) rid g /\ s_uses (snd (record_mut rid g s)) = s_uses s /\
+    nf (snd (record_mut rid g s)) = nf s /\ s_bad (snd (record_mut rid g s)) = s_bad s.
+Proof.
+  intros s rid g rc H. unfold record_mut. rewrite H. simpl. repeat split; auto. exists []. now rewrite app_nil_r.
+Qed.
+Lemma add_inherited_frames : forall e fr frs l, e_frames e = fr :: frs ->
+    e_frames (add_inherited e l) = mkFrame (fr_vars fr) (fr_fields fr ++ l) (fr_targs fr) :: frs.
+Proof. intros e fr frs l H. unfold add_inherited. rewrite H. reflexivity. Qed.
+Lemma same_globals_add_inherited : forall e l, same_globals e (add_inherited e l).
+Proof. intros. unfold add_inherited. destruct (e_frames e); repeat split. Qed.
+
+(** one more parent class: its fields come behind what the record has *)
+Lemma RB_add_parent : forall f e s rid cid lc,
+    RB f e s rid -> Pre2g f e s -> cid < rid -> FLD s cid lc ->
+    ResR f s (snd (record_mut rid (rec_add_parent cid) s)) [] (add_inherited e lc) rid.
+Proof.
+  intros f e s rid cid lc R G Hlt Hc.
+  destruct (RB_valid _ _ _ _ R) as [rc Hrc].
+  destruct (record_mut_facts s rid (rec_add_parent cid) rc Hrc) as (U & Hu & Hn & _).
+  set (s2 := snd (record_mut rid (rec_add_parent cid) s)) in *.
+  pose proof (RB_inh _ _ _ _ R) as [HREC _].
+  pose proof U as (_ & _ & _ & Hcl & _ & _ & _ & Hext & Hr3).
+  split; auto.
+  - eapply (RB_rec_update f e _ s s2 rid _ R U); try reflexivity.
+    + intros r p Hp. simpl in Hp. apply in_app_or in Hp. destruct Hp as [Hp|[<-|[]]]; [now left|now right].
+    + destruct (same_globals_add_inherited e lc) as (A & _). now rewrite A.
+    + intros vars t fr frs rc0 Hsc Hfe Hrec Af At.
+      exists (mkFrame (fr_vars fr) (fr_fields fr ++ lc) (fr_targs fr)).
+      split; [now apply add_inherited_frames|]. split; [reflexivity|]. split.
+      * simpl. eapply (FLD_add_parent s s2 rid rc0 cid); eassumption.
+      * simpl. now apply (AL_ext s s2).
+  - eapply (Pre2g_globals f e); [apply same_globals_add_inherited|].
+    eapply Pre2g_rec_update; [exact G|exact U|reflexivity].
+Qed.
+
+(** a reference to the record itself (reported, not attached): the class has no fields yet *)
+Lemma RB_inherit_nil : forall f e s rid, RB f e s rid -> Pre2g f e s -> ResR f s s [] (add_inherited e []) rid.
+Proof.
+  intros f e s rid R G.
+  destruct R as [vars t fr frs rc Hsc Hfe Hrec Hlast Av Af At HI HS T1 T2 T3].
+  destruct (same_globals_add_inherited e []) as (A & _).
+  split; auto.
+  - apply (mkRB f _ s rid vars t (mkFrame (fr_vars fr) (fr_fields fr ++ []) (fr_targs fr)) frs rc); auto.
+    + now apply add_inherited_frames.
+    + simpl. now rewrite app_nil_r.
+    + eapply (Inh_globals _ e); [apply same_globals_add_inherited|exact HI].
+    + intros n0 ci H1 H2. rewrite A in H1. eapply HS; eassumption.
+  - eapply (Pre2g_globals f e); [apply same_globals_add_inherited|exact G].
+Qed.
+
+Definition parent_step (n : nat) (rid : N) (cr : classref) : M unit :=
+  bind (try_ (resolve_class_ref_as_class n cr))
+       (fun o => match o with
+                 | Some cid => if cid =? rid then err (classref_rng cr) DSelfInherit
+                               else record_mut rid (rec_add_parent cid)
+                 | None => ret tt
+                 end).
+
+Lemma BM_parent_step : forall n rid cr, resp BadMono (parent_step n rid cr).
+Proof.
+  intros n rid cr. unfold parent_step. apply (resp_bind BadMono BM_trans).
+  - apply (resp_try BadMono). apply (r_resolve_class BadMono BM_refl BM_trans); bm_prim.
+  - intros [cid|]; [|apply (resp_ret BadMono BM_refl)]. destruct (cid =? rid); [apply BM_err|apply BM_record_mut].
+Qed.
+
+Lemma parent_sim : forall n c f e s rid,
+    frag_classref c = true -> RB f e s rid -> Pre2g f e s ->
+    forallb resolved (spec_classref f e c) = true ->
+    s_bad (snd (parent_step n rid c s)) = false ->
+    ResR f s (snd (parent_step n rid c s)) (spec_classref f e c) (add_inherited e (classref_fields e c)) rid.
+Proof.
+  intros n [i args r] f e s rid Hf R G HR Hb.
+  pose proof (RB_Pre _ _ _ _ R G) as P.
+  assert (Hl : exists ci, lookup (i_name i) (e_cls e) = Some ci).
+  { simpl in HR. apply andb_true_iff in HR. destruct HR as [HR1 _]. unfold resolved, lookup_class in HR1; simpl in HR1.
+    destruct (lookup (i_name i) (e_cls e)) as [ci|]; [eauto|discriminate]. }
+  destruct Hl as [ci Hci].
+  assert (Hcf : classref_fields e (CRef i args r) = ci_fields ci) by (simpl; now rewrite Hci).
+  rewrite Hcf.
+  unfold parent_step, bind, try_ in *.
+  destruct (resolve_class_ref_as_class n (CRef i args r) s) as [o s1] eqn:Er. cbn [fst snd] in *.
+  assert (Hb1 : s_bad s1 = false).
+  { destruct (s_bad s1) eqn:E; [|reflexivity].
+    assert (X : resp BadMono (match o with
+                              | Some cid => if cid =? rid then err (classref_rng (CRef i args r)) DSelfInherit
+                                            else record_mut rid (rec_add_parent cid)
+                              | None => ret tt
+                              end)).
+    { destruct o as [cid|]; [|apply (resp_ret BadMono BM_refl)]. destruct (cid =? rid); [apply BM_err|apply BM_record_mut]. }
+    rewrite (X s1 E) in Hb. discriminate. }
+  destruct (clsref_sim n i args r f e s Hf P HR) as (S1 & cid & Hfst & Hfc); [now rewrite Er|].
+  rewrite Er in S1, Hfst. simpl in S1, Hfst. subst o.
+  pose proof (ResR_of_Step f e s s1 _ rid S1 R G) as R1. pose proof R1 as [_ _ Rb1 G1 C1].
+  destruct (N.eqb_spec cid rid) as [Heq|Hne].
+  - (* the record itself *)
+    subst cid.
+    assert (Hnil : ci_fields ci = []) by (eapply (RB_self _ _ _ _ R); eassumption).
+    rewrite Hnil.
+    pose proof (err_ResR f e s1 rid r DSelfInherit eq_refl Rb1 G1) as R2. pose proof R2 as [_ _ Rb2 G2 _].
+    pose proof (RB_inherit_nil f e _ rid Rb2 G2) as R3.
+    rewrite <- (app_nil_r (spec_classref f e (CRef i args r))). eapply ResR_trans; [exact R1|].
+    change (@nil ev) with (@nil ev ++ []). eapply ResR_trans; [exact R2|exact R3].
+  - destruct (RB_inh _ _ _ _ Rb1) as [_ HC]. destruct (HC _ _ Hci) as (cid' & A & B & C).
+    unfold find_class in A, Hfc. rewrite C1, Hfc in A. injection A as <-.
+    assert (Hlt : cid < rid).
+    { destruct (nthN (s_recs s1) cid) as [rc0|] eqn:E; [|congruence]. apply nthN_some_lt in E.
+      pose proof (RB_last _ _ _ _ Rb1) as Hl. unfold lenN in Hl. lia. }
+    pose proof (RB_add_parent f e s1 rid cid (ci_fields ci) Rb1 G1 Hlt) as R2.
+    rewrite <- (app_nil_r (spec_classref f e (CRef i args r))). eapply ResR_trans; [exact R1|]. apply R2.
+    apply C. congruence.
+Qed.
+
+Lemma parents_rec_sim : forall n ps f e s rid,
+    forallb frag_classref ps = true -> RB f e s rid -> Pre2g f e s ->
+    forallb resolved (fst (spec_parents f e ps)) = true ->
+    s_bad (snd (iterM (parent_step n rid) ps s)) = false ->
+    ResR f s (snd (iterM (parent_step n rid) ps s)) (fst (spec_parents f e ps)) (snd (spec_parents f e ps)) rid.
+Proof.
+  intros n ps. induction ps as [|c r IHl]; intros f e s rid Hf R G HR Hb.
+  - simpl. split; auto.
+  - simpl in Hf. apply andb_true_iff in Hf. destruct Hf as [Hf1 Hf2].
+    simpl in HR, Hb |- *. unfold seq in *.
+    destruct (spec_parents f (add_inherited e (classref_fields e c)) r) as [ev2 e2] eqn:E2. simpl in *.
+    rewrite forallb_app in HR. apply andb_true_iff in HR. destruct HR as [HR1 HR2].
+    assert (Hb1 : s_bad (snd (parent_step n rid c s)) = false).
+    { eapply (bad_false_before _ (iterM (parent_step n rid) r)); [|exact Hb].
+      apply (resp_iterM BadMono BM_refl BM_trans). intros; apply BM_parent_step. }
+    pose proof (parent_sim n c f e s rid Hf1 R G HR1 Hb1) as R1. pose proof R1 as [_ _ Rb1 G1 _].
+    pose proof (IHl f _ _ rid Hf2 Rb1 G1) as R2. rewrite E2 in R2. simpl in R2. specialize (R2 HR2 Hb).
+    eapply ResR_trans; eassumption.
+Qed.
+
+Lemma index_parents_rec : forall n ps s rid, current_record_id s = Some rid ->
+    index_parents n ps s = iterM (parent_step n rid) ps s.
+Proof. intros n ps s rid H. unfold index_parents, bind, state, get; simpl. rewrite H. reflexivity. Qed.
+
+(** ---- opening and closing a record *)
+Lemma nthN_app_inv : forall A (l : list A) x id y,
+    nthN (l ++ [x]) id = Some y -> nthN l id = Some y \/ (id = lenN l /\ y = x).
+Proof.
+  intros A l x id y H. unfold nthN, lenN in *.
+  destruct (Nat.lt_ge_cases (N.to_nat id) (length l)) as [Hlt|Hge].
+  - rewrite nth_error_app1 in H by exact Hlt. now left.
+  - rewrite nth_error_app2 in H by exact Hge. right.
+    destruct (N.to_nat id - length l)%nat as [|k] eqn:E; simpl in H.
+    + injection H as <-. split; [lia|reflexivity].
+    + destruct k; discriminate.
+Qed.
+Lemma nthN_app_lt : forall A (l ext : list A) id, id < lenN l -> nthN (l ++ ext) id = nthN l id.
+Proof. intros A l ext id H. unfold nthN, lenN in *. apply nth_error_app1. lia. Qed.
+
+Lemma REC_app : forall recs r, REC recs -> rc_parents r = [] -> REC (recs ++ [r]).
+Proof.
+  intros recs r HR Hp id rc H p0 Hp0. destruct (nthN_app_inv _ _ _ _ _ H) as [Ho|[_ ->]].
+  - apply (HR id rc Ho p0 Hp0).
+  - rewrite Hp in Hp0. destruct Hp0.
+Qed.
+
+Lemma FLD_app : forall s s1 r cid l,
+    FLD s cid l -> REC (s_recs s) -> nthN (s_recs s) cid <> None ->
+    s_recs s1 = s_recs s ++ [r] -> s_leaves s1 = s_leaves s -> FLD s1 cid l.
+Proof.
+  intros s s1 r cid l H HR Hv Hr Hl.
+  assert (Hlt : cid < lenN (s_recs s)).
+  { destruct (nthN (s_recs s) cid) eqn:E; [|congruence]. apply nthN_some_lt in E. unfold lenN. lia. }
+  apply (FLD_mono s s1 cid l (lenN (s_recs s))); auto.
+  - intros id Hid. rewrite Hr. now apply nthN_app_lt.
+  - exists []. now rewrite Hl, app_nil_r.
+Qed.
+
+Lemma Inh_app : forall o e e' s s1 r,
+    Inh o e s -> e_cls e' = e_cls e -> s_recs s1 = s_recs s ++ [r] -> rc_parents r = [] ->
+    s_leaves s1 = s_leaves s -> s_nclass s1 = s_nclass s -> Inh o e' s1.
+Proof.
+  intros o e e' s s1 r [HR HC] He Hr Hp Hl Hn. split; [rewrite Hr; now apply REC_app|].
+  intros n0 ci H. rewrite He in H. destruct (HC n0 ci H) as (cid & A & B & C).
+  exists cid. unfold find_class in *. rewrite Hn. split; [exact A|]. split.
+  - rewrite Hr. destruct (nthN (s_recs s) cid) as [x|] eqn:E; [|congruence]. now rewrite (nthN_app_some _ _ [r] _ _ E).
+  - intros Ho. eapply FLD_app; eauto.
+Qed.
+
+Lemma Inh_app_cls : forall e s s1 r nm loc,
+    Inh None e s -> s_recs s1 = s_recs s ++ [r] -> rc_parents r = [] -> s_leaves s1 = s_leaves s ->
+    s_nclass s1 = (nm, lenN (s_recs s)) :: s_nclass s ->
+    Inh (Some (lenN (s_recs s))) (set_cls e nm (mkCi loc [])) s1.
+Proof.
+  intros e s s1 r nm loc [HR HC] Hr Hp Hl Hn. split; [rewrite Hr; now apply REC_app|].
+  intros n0 ci H. unfold set_cls in H. simpl in H. unfold find_class. rewrite Hn. simpl.
+  destruct (name_eqb n0 nm).
+  - exists (lenN (s_recs s)). split; [reflexivity|]. split; [rewrite Hr, nthN_app_last; discriminate|].
+    intros Ho. congruence.
+  - destruct (HC n0 ci H) as (cid & A & B & C). exists cid. split; [exact A|]. split.
+    + rewrite Hr. destruct (nthN (s_recs s) cid) as [x|] eqn:E; [|congruence]. now rewrite (nthN_app_some _ _ [r] _ _ E).
+    + intros _. eapply FLD_app; eauto. apply C. discriminate.
+Qed.
+
+Lemma Inh_valid_lt : forall o e s n0 ci cid,
+    Inh o e s -> lookup n0 (e_cls e) = Some ci -> find_class s n0 = Some cid -> cid < lenN (s_recs s).
+Proof.
+  intros o e s n0 ci cid [_ HC] H1 H2. destruct (HC n0 ci H1) as (cid' & A & B & _).
+  assert (cid' = cid) by congruence. subst cid'.
+  destruct (nthN (s_recs s) cid) eqn:E; [|congruence]. apply nthN_some_lt in E. unfold lenN. lia.
+Qed.
+
+(** at the end of a class body the entry of the class gets the field table the body has built *)
+Lemma Inh_close_class : forall f e e4 s s3 nm loc,
+    Inh None e s -> RB f e4 s3 (lenN (s_recs s)) ->
+    (forall n0, lookup n0 (e_cls e4) = if name_eqb n0 nm then Some (mkCi loc []) else lookup n0 (e_cls e)) ->
+    s_nclass s3 = (nm, lenN (s_recs s)) :: s_nclass s ->
+    Inh None (set_cls e nm (mkCi loc (top_fields e4))) s3.
+Proof.
+  intros f e e4 s s3 nm loc HI0 R He Hn.
+  destruct R as [vars t fr frs rc Hsc Hfe Hrec Hlast Av Af At [HR HC] HS T1 T2 T3].
+  split; [exact HR|]. intros n0 ci H. unfold set_cls in H. simpl in H.
+  unfold find_class. rewrite Hn. simpl. specialize (He n0).
+  destruct (name_eqb n0 nm) eqn:Hne.
+  - injection H as <-. exists (lenN (s_recs s)). split; [reflexivity|]. split; [congruence|].
+    intros _. simpl. unfold top_fields. rewrite Hfe. exact Af.
+  - rewrite <- He in H. destruct (HC n0 ci H) as (cid & A & B & C).
+    unfold find_class in A. rewrite Hn in A. simpl in A.
+    rewrite Hne in A. exists cid. split; [exact A|]. split; [exact B|]. intros _. apply C.
+    rewrite He in H. pose proof (Inh_valid_lt _ _ _ _ _ _ HI0 H A) as Hlt. intros X. injection X as X. lia.
+Qed.
+(** ... and nothing changes for the classes at the end of a def body *)
+Lemma Inh_close_def : forall f e e' e4 s s3,
+    Inh None e s -> RB f e4 s3 (lenN (s_recs s)) -> e_cls e4 = e_cls e -> e_cls e' = e_cls e ->
+    s_nclass s3 = s_nclass s -> Inh None e' s3.
+Proof.
+  intros f e e' e4 s s3 HI0 R He4 He' Hn.
+  destruct R as [vars t fr frs rc Hsc Hfe Hrec Hlast Av Af At [HR HC] HS T1 T2 T3].
+  split; [exact HR|]. intros n0 ci H. rewrite He' in H. pose proof H as H'. rewrite <- He4 in H'.
+  destruct (HC n0 ci H') as (cid & A & B & C). exists cid. split; [exact A|]. split; [exact B|]. intros _. apply C.
+  unfold find_class in A. rewrite Hn in A.
+  pose proof (Inh_valid_lt _ _ _ _ _ _ HI0 H A) as Hlt. intros X. injection X as X. lia.
+Qed.
+
+Lemma self_start_cls : forall e s s1 nm loc,
+    Inh None e s -> s_nclass s1 = (nm, lenN (s_recs s)) :: s_nclass s ->
+    forall n0 ci, lookup n0 (e_cls (set_cls e nm (mkCi loc []))) = Some ci ->
+                  find_class s1 n0 = Some (lenN (s_recs s)) -> ci_fields ci = [].
+Proof.
+  intros e s s1 nm loc HI Hn n0 ci H1 H2. unfold set_cls in H1. simpl in H1.
+  unfold find_class in H2. rewrite Hn in H2. simpl in H2.
+  destruct (name_eqb n0 nm); [injection H1 as <-; reflexivity|].
+  pose proof (Inh_valid_lt _ _ _ _ _ _ HI H1 H2). lia.
+Qed.
+Lemma self_start_def : forall e e0 s s1,
+    Inh None e s -> e_cls e0 = e_cls e -> s_nclass s1 = s_nclass s ->
+    forall n0 ci, lookup n0 (e_cls e0) = Some ci -> find_class s1 n0 = Some (lenN (s_recs s)) -> ci_fields ci = [].
+Proof.
+  intros e e0 s s1 HI He Hn n0 ci H1 H2. rewrite He in H1. unfold find_class in H2. rewrite Hn in H2.
+  pose proof (Inh_valid_lt _ _ _ _ _ _ HI H1 H2). lia.
+Qed.
+
+Lemma same_globals_spec_parents : forall f l e, same_globals e (snd (spec_parents f e l)).
+Proof.
+  intros f l. induction l as [|c r IH]; intros e; simpl; [apply same_globals_refl|].
+  destruct (spec_parents f (add_inherited e (classref_fields e c)) r) as [ev2 e2] eqn:E. simpl.
+  eapply same_globals_trans; [apply same_globals_add_inherited|].
+  specialize (IH (add_inherited e (classref_fields e c))). rewrite E in IH. exact IH.
+Qed.
+
+Lemma spec_class_eq : forall f e i targs ps b,
+    spec_stmt f e (SClass i targs ps b)
+    = let loc := at_file f (i_rng i) in
+      let e1 := push_vars (set_cls e (i_name i) (mkCi loc [])) [] in
+      let '(ev1, e2) := match targs with Some l => spec_targs f e1 l | None => ([], e1) end in
+      let '(ev2, e3) := spec_parents f e2 ps in
+      let '(ev3, e4) := spec_items f e3 b in
+      (ev1 ++ ev2 ++ ev3, set_cls e (i_name i) (mkCi loc (top_fields e4))).
+Proof. intros. reflexivity. Qed.
+
 Section CasesB5.
   Variable files : list (list stmt).
   Variable n : nat.
@@ -1847,30 +2451,39 @@ Section CasesB5.
     - apply (r_record_body BadMono BM_refl BM_trans); bm_prim.
   Qed.
 
-  Lemma caseB_class : forall i targs b f e s,
-      match targs with Some l => forallb frag_targ l | None => true end = true -> forallb frag_item b = true ->
-      Pre2 f e s -> Stat s -> e_frames e <> [] ->
-      forallb resolved (fst (spec_stmt f e (SClass i targs [] b))) = true ->
-      s_bad (snd (index_stmt files (S n) (SClass i targs [] b) s)) = false ->
-      ResB f s (snd (index_stmt files (S n) (SClass i targs [] b) s))
-           (fst (spec_stmt f e (SClass i targs [] b))) (snd (spec_stmt f e (SClass i targs [] b))).
+  Lemma BM_items : forall b, resp BadMono (iterM (index_item n) b).
   Proof.
-    intros i targs b f e s Hft Hfb P T He HR Hb.
-    pose proof (finish_block_like files (S n) (SClass i targs [] b) f e) as FIN.
-    set (final := snd (index_stmt files (S n) (SClass i targs [] b) s)) in *.
-    rewrite spec_class_nopar in *. cbv zeta in HR |- *.
+    intros b. apply (resp_iterM BadMono BM_refl BM_trans). intros x _.
+    apply (r_index_item BadMono BM_refl BM_trans); bm_prim.
+  Qed.
+
+  Lemma caseB_class : forall i targs ps b f e s,
+      match targs with Some l => forallb frag_targ l | None => true end = true ->
+      forallb frag_classref ps = true -> forallb frag_item b = true ->
+      Pre2 f e s -> Stat s -> e_frames e <> [] -> Inh None e s ->
+      forallb resolved (fst (spec_stmt f e (SClass i targs ps b))) = true ->
+      s_bad (snd (index_stmt files (S n) (SClass i targs ps b) s)) = false ->
+      ResB f s (snd (index_stmt files (S n) (SClass i targs ps b) s))
+           (fst (spec_stmt f e (SClass i targs ps b))) (snd (spec_stmt f e (SClass i targs ps b))).
+  Proof.
+    intros i targs ps b f e s Hft Hfp Hfb P T He HI HR Hb.
+    pose proof (finish_block_like files (S n) (SClass i targs ps b) f e) as FIN.
+    set (final := snd (index_stmt files (S n) (SClass i targs ps b) s)) in *.
+    rewrite spec_class_eq in *. cbv zeta in HR |- *.
     set (loc := at_file f (i_rng i)) in *.
     set (e0 := set_cls e (i_name i) (mkCi loc [])) in *.
     set (e1 := push_vars e0 []) in *.
     destruct (match targs with Some l => spec_targs f e1 l | None => ([], e1) end) as [ev1 e2] eqn:Et.
-    destruct (spec_items f e2 b) as [ev3 e4] eqn:Ei. simpl in HR |- *.
-    rewrite forallb_app in HR. apply andb_true_iff in HR. destruct HR as [HR1 HR3].
+    destruct (spec_parents f e2 ps) as [ev2 e3] eqn:Ep.
+    destruct (spec_items f e3 b) as [ev3 e4] eqn:Ei. simpl in HR |- *.
+    rewrite forallb_app in HR. apply andb_true_iff in HR. destruct HR as [HR1 HR].
+    rewrite forallb_app in HR. apply andb_true_iff in HR. destruct HR as [HR2 HR3].
     (* the model *)
     set (mloc := mkR (current_file s) (r_lo (i_rng i)) (r_hi (i_rng i))).
     assert (Hloc : mloc = loc) by (unfold mloc, loc, at_file; now rewrite (p2_file f e s P)).
     set (s1 := snd (add_record (i_name i) true mloc s)).
     set (rid := lenN (s_recs s)).
-    set (body := seq (match targs with Some l => iterM (index_targ n) l | None => ret tt end) (index_record_body n [] b)).
+    set (body := seq (match targs with Some l => iterM (index_targ n) l | None => ret tt end) (index_record_body n ps b)).
     assert (Efin : final = snd (scoped (KRecord rid) body s1)).
     { unfold final. simpl. unfold bind at 1. unfold here, get. simpl. unfold bind at 1. reflexivity. }
     rewrite Efin in Hb |- *.
@@ -1879,7 +2492,9 @@ Section CasesB5.
     assert (Hb' := Hb). apply scoped_bad in Hb'.
     (* relation at the start of the body *)
     assert (R0 : RB f e1 (pushed (KRecord rid) s1) rid).
-    { apply (RB_start f e e0 s s1 rid (i_name i) true mloc); auto. }
+    { apply (RB_start f e e0 s s1 rid (i_name i) true mloc); auto.
+      - unfold e0, rid. eapply Inh_app_cls; eauto.
+      - unfold e0, rid. eapply self_start_cls; eauto. }
     assert (G0 : Pre2g f e1 (pushed (KRecord rid) s1)).
     { apply Pre2g_pushed. unfold e0. rewrite <- Hloc.
       apply (Pre2g_add_record f e s (i_name i) true mloc []). now apply Pre2_g. }
@@ -1887,36 +2502,46 @@ Section CasesB5.
     (* template arguments *)
     set (st := snd ((match targs with Some l => iterM (index_targ n) l | None => ret tt end) (pushed (KRecord rid) s1))) in *.
     assert (Hbt : s_bad st = false).
-    { eapply (bad_false_before _ (index_record_body n [] b)); [|exact Hb'].
+    { eapply (bad_false_before _ (index_record_body n ps b)); [|exact Hb'].
       apply (r_record_body BadMono BM_refl BM_trans); bm_prim. }
     assert (R1 : ResR f (pushed (KRecord rid) s1) st ev1 e2 rid).
     { unfold st. destruct targs as [l|]; simpl in Et |- *.
       - pose proof (targs_sim n l f e1 (pushed (KRecord rid) s1) rid Hft R0 G0) as X.
         rewrite Et in X. simpl in X. apply X; auto.
       - injection Et as <- <-. split; auto. }
-    pose proof R1 as [U1 N1 Rb1 G1].
-    (* parents: none; items *)
-    unfold index_record_body, seq in Hb'. rewrite (parents_nil_rec n st rid (RB_current _ _ _ _ Rb1)) in Hb'.
-    pose proof (items_sim n b f e2 st rid Hfb Rb1 G1) as R3. rewrite Ei in R3. simpl in R3. specialize (R3 HR3 Hb').
-    destruct R3 as [U3 N3 Rb3 G3].
-    set (s3 := snd (iterM (index_item n) b st)) in *.
+    pose proof R1 as [U1 N1 Rb1 G1 C1].
+    (* parents *)
+    unfold index_record_body, seq in Hb'. rewrite (index_parents_rec n ps st rid (RB_current _ _ _ _ Rb1)) in Hb'.
+    set (sp := snd (iterM (parent_step n rid) ps st)) in *.
+    assert (Hbp : s_bad sp = false) by (eapply (bad_false_before _ (iterM (index_item n) b)); [apply BM_items|exact Hb']).
+    pose proof (parents_rec_sim n ps f e2 st rid Hfp Rb1 G1) as R2. rewrite Ep in R2. simpl in R2.
+    specialize (R2 HR2 Hbp). fold sp in R2. pose proof R2 as [U2 N2 Rb2 G2 C2].
+    (* items *)
+    pose proof (items_sim n b f e3 sp rid Hfb Rb2 G2) as R3. rewrite Ei in R3. simpl in R3. specialize (R3 HR3 Hb').
+    destruct R3 as [U3 N3 Rb3 G3 C3].
+    set (s3 := snd (iterM (index_item n) b sp)) in *.
     assert (Ebody : snd (body (pushed (KRecord rid) s1)) = s3).
-    { unfold body, seq, index_record_body, seq. fold st. rewrite (parents_nil_rec n st rid (RB_current _ _ _ _ Rb1)). reflexivity. }
-    destruct (grows_class_body n targs [] b (pushed (KRecord rid) s1)) as [vs Hvs]. fold body in Hvs.
+    { unfold body, seq, index_record_body, seq. fold st.
+      rewrite (index_parents_rec n ps st rid (RB_current _ _ _ _ Rb1)). reflexivity. }
+    destruct (grows_class_body n targs ps b (pushed (KRecord rid) s1)) as [vs Hvs]. fold body in Hvs.
+    assert (GG : same_globals e1 e4).
+    { eapply same_globals_trans; [|pose proof (same_globals_spec_items f b e3) as X; rewrite Ei in X; exact X].
+      eapply same_globals_trans; [|pose proof (same_globals_spec_parents f ps e2) as X; rewrite Ep in X; exact X].
+      destruct targs as [l|]; simpl in Et; [pose proof (same_globals_spec_targs f l e1) as X; rewrite Et in X; exact X|].
+      injection Et as _ <-. apply same_globals_refl. }
     rewrite <- Efin. unfold final.
-    eapply (FIN e4 _ s s3 (ev1 ++ ev3)); auto.
+    eapply (FIN e4 _ s s3 (ev1 ++ ev2 ++ ev3)); auto.
     - (* globals: the class table differs only in the field list of the class itself *)
-      assert (GG : same_globals e1 e4).
-      { eapply same_globals_trans; [|pose proof (same_globals_spec_items f b e2) as X; rewrite Ei in X; exact X].
-        destruct targs as [l|]; simpl in Et; [pose proof (same_globals_spec_targs f l e1) as X; rewrite Et in X; exact X|].
-        injection Et as _ <-. apply same_globals_refl. }
       destruct GG as (A & B & C & D). repeat split; auto.
       intros nm. unfold lookup_class. rewrite A. unfold e1, e0, set_cls. simpl.
       destruct (name_eqb nm (i_name i)); reflexivity.
     - change (same_but_scopes final s3). rewrite Efin.
       rewrite (scoped_final _ (KRecord rid) body s1 vs Hvs). rewrite Ebody. apply sbs_set_scopes.
-    - rewrite U3, U1. simpl. rewrite Hu, rev_app_distr, app_assoc. reflexivity.
-    - rewrite N3, N1. unfold nf, pushed; simpl. fold (nf s1). exact Hn.
+    - rewrite U3, U2, U1. simpl. rewrite Hu, !rev_app_distr, !app_assoc. reflexivity.
+    - rewrite N3, N2, N1. unfold nf, pushed; simpl. fold (nf s1). exact Hn.
+    - apply (Inh_close_class f e e4 s s3 (i_name i) loc HI Rb3).
+      + intros n0. destruct GG as (A & _). rewrite A. unfold e1, e0, set_cls. reflexivity.
+      + rewrite C3, C2, C1. exact Hnc.
   Qed.
 End CasesB5.
 
@@ -1943,58 +2568,71 @@ Proof.
   - intros n0 H. unfold find_multiclass in *. rewrite Hmc. now apply M2.
 Qed.
 
-Lemma spec_def_nopar : forall f e nm r b,
-    spec_stmt f e (SDef nm r [] b)
+Lemma spec_def_eq : forall f e nm r ps b,
+    spec_stmt f e (SDef nm r ps b)
     = let e0 := match name_ident nm with Some i => set_def e (i_name i) (at_file f (i_rng i)) | None => e end in
-      let '(ev3, _) := spec_items f (push_vars e0 []) b in (ev3, e0).
-Proof.
-  intros. simpl. destruct (spec_items f _ b) as [ev3 e4]. reflexivity.
-Qed.
+      let '(ev2, e3) := spec_parents f (push_vars e0 []) ps in
+      let '(ev3, _) := spec_items f e3 b in (ev2 ++ ev3, e0).
+Proof. intros. reflexivity. Qed.
 
 Section CasesB6.
   Variable files : list (list stmt).
   Variable n : nat.
 
-  (** a record statement without template arguments and parents, once the record has been allocated *)
-  Lemma record_tail : forall x f e e0 s s1 rid rnm (rcls : bool) rloc b,
-      block_like x = true -> forallb frag_item b = true ->
-      Pre2 f e s -> Stat s -> e_frames e <> [] -> e_frames e0 = e_frames e ->
+  (** a record statement without template arguments, once the record has been allocated *)
+  Lemma record_tail : forall x f e e0 s s1 rid rnm (rcls : bool) rloc ps b,
+      block_like x = true -> forallb frag_classref ps = true -> forallb frag_item b = true ->
+      Pre2 f e s -> Stat s -> e_frames e <> [] -> Inh None e s ->
+      e_frames e0 = e_frames e -> e_cls e0 = e_cls e ->
       s_scopes s1 = s_scopes s -> s_mcs s1 = s_mcs s -> s_leaves s1 = s_leaves s ->
       s_recs s1 = s_recs s ++ [mkRec rnm rcls [] [] [] rloc] -> rid = lenN (s_recs s) ->
-      s_uses s1 = s_uses s -> nf s1 = nf s ->
+      s_uses s1 = s_uses s -> nf s1 = nf s -> s_nclass s1 = s_nclass s ->
       Pre2g f e0 s1 ->
-      snd (index_stmt files (S n) x s) = snd (scoped (KRecord rid) (index_record_body n [] b) s1) ->
-      forallb resolved (fst (spec_items f (push_vars e0 []) b)) = true ->
+      snd (index_stmt files (S n) x s) = snd (scoped (KRecord rid) (index_record_body n ps b) s1) ->
+      forallb resolved (fst (spec_parents f (push_vars e0 []) ps)) = true ->
+      forallb resolved (fst (spec_items f (snd (spec_parents f (push_vars e0 []) ps)) b)) = true ->
       s_bad (snd (index_stmt files (S n) x s)) = false ->
-      ResB f s (snd (index_stmt files (S n) x s)) (fst (spec_items f (push_vars e0 []) b)) e0.
+      ResB f s (snd (index_stmt files (S n) x s))
+           (fst (spec_parents f (push_vars e0 []) ps) ++ fst (spec_items f (snd (spec_parents f (push_vars e0 []) ps)) b)) e0.
   Proof.
-    intros x f e e0 s s1 rid rnm rcls rloc b Hx Hfb P T He Hfe Hsc Hm Hl Hr Hrid Hu Hn G1 Efin HR Hb.
+    intros x f e e0 s s1 rid rnm rcls rloc ps b Hx Hfp Hfb P T He HI Hfe Hce Hsc Hm Hl Hr Hrid Hu Hn Hnc G1 Efin HR2 HR3 Hb.
     pose proof (finish_block_like files (S n) x f e) as FIN.
     set (final := snd (index_stmt files (S n) x s)) in *.
     rewrite Efin in Hb.
     assert (Hb' := Hb). apply scoped_bad in Hb'.
-    assert (R0 : RB f (push_vars e0 []) (pushed (KRecord rid) s1) rid)
-      by (apply (RB_start f e e0 s s1 rid rnm rcls rloc); auto).
+    assert (R0 : RB f (push_vars e0 []) (pushed (KRecord rid) s1) rid).
+    { apply (RB_start f e e0 s s1 rid rnm rcls rloc); auto.
+      - apply Inh_weaken. eapply (Inh_app None e e0 s s1); eauto.
+      - subst rid. eapply self_start_def; eauto. }
     assert (G0 : Pre2g f (push_vars e0 []) (pushed (KRecord rid) s1)) by (now apply Pre2g_pushed).
     unfold index_record_body, seq in Hb'.
-    rewrite (parents_nil_rec n _ rid (RB_current _ _ _ _ R0)) in Hb'.
-    destruct (spec_items f (push_vars e0 []) b) as [ev3 e4] eqn:Ei.
-    pose proof (items_sim n b f (push_vars e0 []) (pushed (KRecord rid) s1) rid Hfb R0 G0) as R3.
-    rewrite Ei in R3. simpl in R3, HR |- *. specialize (R3 HR Hb'). destruct R3 as [U3 N3 Rb3 G3].
-    set (s3 := snd (iterM (index_item n) b (pushed (KRecord rid) s1))) in *.
-    assert (Ebody : snd (index_record_body n [] b (pushed (KRecord rid) s1)) = s3).
-    { unfold index_record_body, seq. rewrite (parents_nil_rec n _ rid (RB_current _ _ _ _ R0)). reflexivity. }
-    destruct (grows_record_body n [] b (pushed (KRecord rid) s1)) as [vs Hvs].
+    rewrite (index_parents_rec n ps _ rid (RB_current _ _ _ _ R0)) in Hb'.
+    set (sp := snd (iterM (parent_step n rid) ps (pushed (KRecord rid) s1))) in *.
+    assert (Hbp : s_bad sp = false) by (eapply (bad_false_before _ (iterM (index_item n) b)); [apply BM_items|exact Hb']).
+    destruct (spec_parents f (push_vars e0 []) ps) as [ev2 e3] eqn:Ep.
+    pose proof (parents_rec_sim n ps f (push_vars e0 []) (pushed (KRecord rid) s1) rid Hfp R0 G0) as R2.
+    rewrite Ep in R2. simpl in R2, HR2, HR3 |- *. specialize (R2 HR2 Hbp). fold sp in R2.
+    pose proof R2 as [U2 N2 Rb2 G2 C2].
+    destruct (spec_items f e3 b) as [ev3 e4] eqn:Ei.
+    pose proof (items_sim n b f e3 sp rid Hfb Rb2 G2) as R3.
+    rewrite Ei in R3. simpl in R3, HR3 |- *. specialize (R3 HR3 Hb'). destruct R3 as [U3 N3 Rb3 G3 C3].
+    set (s3 := snd (iterM (index_item n) b sp)) in *.
+    assert (Ebody : snd (index_record_body n ps b (pushed (KRecord rid) s1)) = s3).
+    { unfold index_record_body, seq. rewrite (index_parents_rec n ps _ rid (RB_current _ _ _ _ R0)). reflexivity. }
+    destruct (grows_record_body n ps b (pushed (KRecord rid) s1)) as [vs Hvs].
+    assert (GG : same_globals (push_vars e0 []) e4).
+    { eapply same_globals_trans; [|pose proof (same_globals_spec_items f b e3) as X; rewrite Ei in X; exact X].
+      pose proof (same_globals_spec_parents f ps (push_vars e0 [])) as X. rewrite Ep in X. exact X. }
     unfold final.
-    eapply (FIN e4 e0 s s3 ev3); auto.
-    - apply same_globals_equiv.
-      assert (GG : same_globals (push_vars e0 []) e4)
-        by (pose proof (same_globals_spec_items f b (push_vars e0 [])) as X; rewrite Ei in X; exact X).
-      destruct GG as (A & B & C & D). repeat split; auto.
+    eapply (FIN e4 e0 s s3 (ev2 ++ ev3)); auto.
+    - apply same_globals_equiv. destruct GG as (A & B & C & D). repeat split; auto.
     - change (same_but_scopes final s3). rewrite Efin.
       rewrite (scoped_final _ (KRecord rid) _ s1 vs Hvs). rewrite Ebody. apply sbs_set_scopes.
-    - rewrite U3. simpl. now rewrite Hu.
-    - rewrite N3. unfold nf, pushed; simpl. fold (nf s1). exact Hn.
+    - rewrite U3, U2. simpl. rewrite Hu, rev_app_distr, app_assoc. reflexivity.
+    - rewrite N3, N2. unfold nf, pushed; simpl. fold (nf s1). exact Hn.
+    - subst rid. apply (Inh_close_def f e e0 e4 s s3 HI Rb3); auto.
+      + destruct GG as (A & _). rewrite A. exact Hce.
+      + rewrite C3, C2. exact Hnc.
   Qed.
 End CasesB6.
 
@@ -2002,40 +2640,44 @@ Section CasesB7.
   Variable files : list (list stmt).
   Variable n : nat.
 
-  Lemma caseB_def : forall nm r b f e s,
-      frag_name nm = true -> forallb frag_item b = true ->
-      Pre2 f e s -> Stat s -> e_frames e <> [] ->
-      forallb resolved (fst (spec_stmt f e (SDef nm r [] b))) = true ->
-      s_bad (snd (index_stmt files (S n) (SDef nm r [] b) s)) = false ->
-      ResB f s (snd (index_stmt files (S n) (SDef nm r [] b) s))
-           (fst (spec_stmt f e (SDef nm r [] b))) (snd (spec_stmt f e (SDef nm r [] b))).
+  Lemma caseB_def : forall nm r ps b f e s,
+      frag_name nm = true -> forallb frag_classref ps = true -> forallb frag_item b = true ->
+      Pre2 f e s -> Stat s -> e_frames e <> [] -> Inh None e s ->
+      forallb resolved (fst (spec_stmt f e (SDef nm r ps b))) = true ->
+      s_bad (snd (index_stmt files (S n) (SDef nm r ps b) s)) = false ->
+      ResB f s (snd (index_stmt files (S n) (SDef nm r ps b) s))
+           (fst (spec_stmt f e (SDef nm r ps b))) (snd (spec_stmt f e (SDef nm r ps b))).
   Proof.
-    intros nm r b f e s Hfn Hfb P T He HR Hb.
-    rewrite spec_def_nopar in *. cbv zeta in HR |- *.
+    intros nm r ps b f e s Hfn Hfp Hfb P T He HI HR Hb.
+    rewrite spec_def_eq in *. cbv zeta in HR |- *.
     destruct nm as [v|].
     - (* named *)
       unfold frag_name, is_ident_first in Hfn. rewrite first_ident_eq in Hfn.
       destruct v as [rv [|[[] sufs] rest]]; simpl in Hfn; try discriminate.
       simpl name_ident in *. cbv iota in HR |- *.
       set (e0 := set_def e (i_name i) (at_file f (i_rng i))) in *.
-      destruct (spec_items f (push_vars e0 []) b) as [ev3 e4] eqn:Ei. simpl in HR |- *.
       set (mloc := mkR (current_file s) (r_lo (i_rng i)) (r_hi (i_rng i))).
       assert (Hloc : mloc = at_file f (i_rng i)) by (unfold mloc, at_file; now rewrite (p2_file f e s P)).
       destruct (add_record_facts (i_name i) false mloc s) as (Hsc & Hm & Hl & Ht & Hr & Hu & Hn & Hmc & Hds & [Hnd Hnc] & Hbd).
-      pose proof (record_tail files n (SDef (Some (Val rv (Inner (SId i) sufs :: rest))) r [] b) f e e0 s
-                              (snd (add_record (i_name i) false mloc s)) (lenN (s_recs s)) (i_name i) false mloc b
-                              eq_refl Hfb P T He eq_refl Hsc Hm Hl Hr eq_refl Hu Hn) as X.
-      rewrite Ei in X. simpl in X. apply X; auto.
+      pose proof (record_tail files n (SDef (Some (Val rv (Inner (SId i) sufs :: rest))) r ps b) f e e0 s
+                              (snd (add_record (i_name i) false mloc s)) (lenN (s_recs s)) (i_name i) false mloc ps b
+                              eq_refl Hfp Hfb P T He HI eq_refl eq_refl Hsc Hm Hl Hr eq_refl Hu Hn Hnc) as X.
+      destruct (spec_parents f (push_vars e0 []) ps) as [ev2 e3] eqn:Ep. cbn [fst snd] in X.
+      destruct (spec_items f e3 b) as [ev3 e4] eqn:Ei. cbn [fst snd] in X. simpl in HR |- *.
+      rewrite forallb_app in HR. apply andb_true_iff in HR. destruct HR as [HR2 HR3].
+      apply X; auto.
       + unfold e0. rewrite <- Hloc. apply (Pre2g_add_record f e s (i_name i) false mloc []). now apply Pre2_g.
     - (* anonymous *)
       simpl name_ident in *. cbv iota in HR |- *.
-      destruct (spec_items f (push_vars e []) b) as [ev3 e4] eqn:Ei. simpl in HR |- *.
       set (mloc := mkR (current_file s) (r_lo r) (r_hi r)).
       set (s0 := snd (next_anonymous s)).
       set (s1 := snd (add_anonymous_def [] mloc s0)).
-      pose proof (record_tail files n (SDef None r [] b) f e e s s1 (lenN (s_recs s)) [] false mloc b
-                              eq_refl Hfb P T He eq_refl) as X.
-      rewrite Ei in X. simpl in X. apply X; auto; try reflexivity.
+      pose proof (record_tail files n (SDef None r ps b) f e e s s1 (lenN (s_recs s)) [] false mloc ps b
+                              eq_refl Hfp Hfb P T He HI eq_refl eq_refl) as X.
+      destruct (spec_parents f (push_vars e []) ps) as [ev2 e3] eqn:Ep. cbn [fst snd] in X.
+      destruct (spec_items f e3 b) as [ev3 e4] eqn:Ei. cbn [fst snd] in X. simpl in HR |- *.
+      rewrite forallb_app in HR. apply andb_true_iff in HR. destruct HR as [HR2 HR3].
+      apply X; auto; try reflexivity.
       + apply (Pre2g_app_rec f e s s1 (mkRec [] false [] [] [] mloc)); try reflexivity. now apply Pre2_g.
   Qed.
 End CasesB7.
@@ -2092,13 +2734,13 @@ Section CasesB8.
   Hypothesis IH : sim_B files n.
 
   Lemma caseB_defset : forall t i b f e s,
-      fragB_stmts b = true -> Pre2 f e s -> Stat s -> e_frames e <> [] ->
+      fragB_stmts b = true -> Pre2 f e s -> Stat s -> e_frames e <> [] -> Inh None e s ->
       forallb resolved (fst (spec_stmt f e (SDefset t i b))) = true ->
       s_bad (snd (index_stmt files (S n) (SDefset t i b) s)) = false ->
       ResB f s (snd (index_stmt files (S n) (SDefset t i b) s))
            (fst (spec_stmt f e (SDefset t i b))) (snd (spec_stmt f e (SDefset t i b))).
   Proof.
-    intros t i b f e s Hfb P T He HR Hb.
+    intros t i b f e s Hfb P T He HI HR Hb.
     pose proof (finish_block_like files (S n) (SDefset t i b) f e) as FIN.
     set (final := snd (index_stmt files (S n) (SDefset t i b) s)) in *.
     rewrite spec_defset in *. cbv zeta in HR |- *.
@@ -2121,17 +2763,18 @@ Section CasesB8.
     cbv zeta in Efin. set (l := mkLeaf LDefset (i_name i) typ false mloc) in *.
     set (k := KDefset (lenN (s_leaves s1))) in *. set (s2 := snd (add_defset l s1)) in *.
     rewrite Efin in Hb |- *.
-    pose proof (ResB_of_Step f e s s1 _ St P T He) as [U0 N0 _ P1 T1 _].
+    pose proof (ResB_of_Step f e s s1 _ St P T He HI) as [U0 N0 _ P1 T1 _ I1].
     destruct (add_defset_facts l s1) as (Hsc & Hm & Hr & Ht & Hl & Hu & Hn & Hc & Hd & Hmc & Hds). fold s2 in Hsc, Hm, Hu, Hn.
     assert (P2 : Pre2 f e0 s2).
     { pose proof (Pre2_add_defset f e s1 l P1) as X.
       assert (Ee : set_dset e (lf_name l) (lf_loc l) = e0) by (unfold e0, l; simpl; now rewrite Hloc).
       rewrite Ee in X. exact X. }
     assert (T2 : Stat s2) by (eapply Stat_same_scopes; eassumption).
+    assert (I2 : Inh None e0 s2) by (eapply (Inh_eq None e e0 s1 s2 I1); [reflexivity|exact Hr|exact Hc|eexists; exact Hl]).
     assert (Hb3 := Hb). apply scoped_bad in Hb3.
     pose proof (stmtsB_sim files n IH b f (push_vars e0 []) (pushed k s2) Hfb
                            (Pre2_pushed f e0 s2 k P2 eq_refl) (Stat_pushed k s2 T2 eq_refl)) as R3.
-    rewrite Eb in R3. simpl in R3. destruct R3 as [U3 N3 [vs Sc3] P4 T4 F4]; auto; [discriminate|].
+    rewrite Eb in R3. simpl in R3. destruct R3 as [U3 N3 [vs Sc3] P4 T4 F4 I4]; auto; [discriminate|].
     rewrite <- Efin. unfold final.
     eapply (FIN e1 (leave e0 e1) s (snd (iterM (index_stmt files n) b (pushed k s2))) (spec_ty f e t ++ ev1)); auto.
     - apply same_globals_equiv, same_globals_leave.
@@ -2157,11 +2800,12 @@ Inductive MB (f : N) (e : env) (s : st) (mid : N) : Prop :=
     current_record_id (set_scopes tail s) = None ->
     (forall c, In c tail -> sc_kind c <> KMulticlass mid) ->
     mc_scopes_valid (set_scopes tail s) ->
+    Inh None e s ->
     MB f e s mid.
 
 Lemma MB_Pre2 : forall f e s mid, MB f e s mid -> Pre2g f e s -> Pre2 f e s.
 Proof.
-  intros f e s mid [t fr frs mc Hsc Hfe Hv Hfl Hmc At T1 T2 T3 T4 T5] [F D1 D2 S1 S2 C1 C2 M1 M2].
+  intros f e s mid [t fr frs mc Hsc Hfe Hv Hfl Hmc At T1 T2 T3 T4 T5 T6] [F D1 D2 S1 S2 C1 C2 M1 M2].
   assert (SF : forall nm, scope_find s (mkScope (KMulticlass mid) []) nm = option_map SyLeaf (alookup nm (mc_targs mc))).
   { intros nm. unfold scope_find, sc_find_variable. cbn [sc_kind sc_vars alookup]. now rewrite Hmc. }
   split; auto.
@@ -2176,9 +2820,11 @@ Proof.
     rewrite At in H. simpl. apply T2. exact H.
 Qed.
 
+Lemma MB_inh : forall f e s mid, MB f e s mid -> Inh None e s.
+Proof. intros f e s mid [t fr frs mc Hsc Hfe Hv Hfl Hmc At T1 T2 T3 T4 T5 T6]. exact T6. Qed.
 Lemma MB_Stat : forall f e s mid, MB f e s mid -> Stat s.
 Proof.
-  intros f e s mid [t fr frs mc Hsc Hfe Hv Hfl Hmc At T1 T2 T3 T4 T5]. split.
+  intros f e s mid [t fr frs mc Hsc Hfe Hv Hfl Hmc At T1 T2 T3 T4 T5 T6]. split.
   - unfold current_record_id in *. rewrite Hsc. simpl in *. exact T3.
   - intros c m Hin Hk. rewrite Hsc in Hin. destruct Hin as [<-|Hin].
     + simpl in Hk. injection Hk as <-. congruence.
@@ -2188,7 +2834,7 @@ Qed.
 
 Lemma MB_VR : forall f e s s' mid, MB f e s mid -> VR s s' -> s_scopes s' = s_scopes s -> MB f e s' mid.
 Proof.
-  intros f e s s' mid [t fr frs mc Hsc Hfe Hv Hfl Hmc At T1 T2 T3 T4 T5] V Hs.
+  intros f e s s' mid [t fr frs mc Hsc Hfe Hv Hfl Hmc At T1 T2 T3 T4 T5 T6] V Hs.
   pose proof V as (Hr & Hm & Hc & Hd & Hmcn & Hds & Ht & Hl).
   apply (mkMB f e s' mid t fr frs mc); auto.
   - now rewrite Hs.
@@ -2198,6 +2844,7 @@ Proof.
     rewrite (find_local_tail_eq t s s' nm Hm T3). split; [exact A|now apply (define_loc_ext s s')].
   - intros nm H. rewrite (find_local_tail_eq t s s' nm Hm T3). now apply T2.
   - intros c m Hin Hk. simpl. rewrite Hm. apply (T5 c m Hin Hk).
+  - eapply Inh_VR; eassumption.
 Qed.
 
 (** the multiclass [mid] gets a template argument *)
@@ -2285,7 +2932,7 @@ Lemma MB_add_targ : forall f e s mid l,
     let s3 := snd (multiclass_mut mid (mc_add_targ (lf_name l) (lenN (s_leaves s))) (snd (add_leaf l s))) in
     ResM f s s3 [] (add_targ e (lf_name l) (lf_loc l)) mid.
 Proof.
-  intros f e s mid l [t fr frs mc Hsc Hfe Hv Hfl Hmc At T1 T2 T3 T4 T5] G s3.
+  intros f e s mid l [t fr frs mc Hsc Hfe Hv Hfl Hmc At T1 T2 T3 T4 T5 T6] G s3.
   assert (U : mc_update s s3 mid (mc_add_targ (lf_name l) (lenN (s_leaves s))) /\ s_uses s3 = s_uses s /\ nf s3 = nf s
               /\ s_leaves s3 = s_leaves s ++ [l]).
   { unfold s3, multiclass_mut, add_leaf; simpl. unfold add_pos.
@@ -2307,6 +2954,7 @@ Proof.
     + intros c m Hin Hk. simpl. rewrite Hm, nthN_set_nth.
       destruct (N.eqb mid m); [|apply (T5 c m Hin Hk)].
       pose proof (T5 c m Hin Hk) as X. simpl in X. destruct (nthN (s_mcs s) m); [discriminate|congruence].
+    + eapply (Inh_eq None e _ s s3 T6); auto. destruct (same_globals_add_targ e (lf_name l) (lf_loc l)) as (A & _). exact A.
   - eapply (Pre2g_globals f e); [apply same_globals_add_targ|].
     eapply Pre2g_mc_update; [exact G|exact U|reflexivity].
 Qed.
@@ -2459,9 +3107,10 @@ Lemma MB_start : forall f e e0 s s1 mid nm loc,
     Pre2 f e s -> Stat s -> e_frames e0 = e_frames e ->
     s_scopes s1 = s_scopes s -> s_recs s1 = s_recs s -> s_leaves s1 = s_leaves s ->
     s_mcs s1 = s_mcs s ++ [mkMc nm [] [] loc] -> mid = lenN (s_mcs s) ->
+    Inh None e0 s1 ->
     MB f (push_vars e0 []) (pushed (KMulticlass mid) s1) mid.
 Proof.
-  intros f e e0 s s1 mid nm loc [F L1 L2 _ _ _ _ _ _ _ _] [Hnr Hmv _] Hfe Hsc Hr Hl Hm ->.
+  intros f e e0 s s1 mid nm loc [F L1 L2 _ _ _ _ _ _ _ _] [Hnr Hmv _] Hfe Hsc Hr Hl Hm -> HI.
   assert (Hval : forall c m, In c (s_scopes s) -> sc_kind c = KMulticlass m -> m <> lenN (s_mcs s)).
   { intros c m Hin Hk Heq. subst m. apply (Hmv c _ Hin Hk). unfold nthN, lenN. rewrite Nat2N.id.
     apply nth_error_None. lia. }
@@ -2527,13 +3176,13 @@ Section CasesB9.
   Lemma caseB_multiclass : forall i targs ps b f e s,
       match targs with Some l => forallb frag_targ l | None => true end = true ->
       forallb frag_classref ps = true -> fragB_stmts b = true ->
-      Pre2 f e s -> Stat s -> e_frames e <> [] ->
+      Pre2 f e s -> Stat s -> e_frames e <> [] -> Inh None e s ->
       forallb resolved (fst (spec_stmt f e (SMulticlass i targs ps b))) = true ->
       s_bad (snd (index_stmt files (S n) (SMulticlass i targs ps b) s)) = false ->
       ResB f s (snd (index_stmt files (S n) (SMulticlass i targs ps b) s))
            (fst (spec_stmt f e (SMulticlass i targs ps b))) (snd (spec_stmt f e (SMulticlass i targs ps b))).
   Proof.
-    intros i targs ps b f e s Hft Hfp Hfb P T He HR Hb.
+    intros i targs ps b f e s Hft Hfp Hfb P T He HI HR Hb.
     pose proof (finish_block_like files (S n) (SMulticlass i targs ps b) f e) as FIN.
     set (final := snd (index_stmt files (S n) (SMulticlass i targs ps b) s)) in *.
     rewrite spec_multiclass in *. cbv zeta in HR |- *.
@@ -2556,6 +3205,8 @@ Section CasesB9.
     destruct (add_multiclass_facts (i_name i) mloc s) as (Hsc & Hr & Hl & Ht & Hm & Hu & Hn & Hc & Hd & Hds & Hmc).
     fold s1 in Hsc, Hr, Hl, Ht, Hm, Hu, Hn, Hc, Hd, Hds, Hmc.
     assert (Hb' := Hb). apply scoped_bad in Hb'.
+    assert (I0 : Inh None e0 s1)
+      by (eapply (Inh_eq None e e0 s s1 HI); [reflexivity|exact Hr|exact Hc|exists []; now rewrite Hl, app_nil_r]).
     assert (R0 : MB f e1 (pushed (KMulticlass mid) s1) mid)
       by (apply (MB_start f e e0 s s1 mid (i_name i) mloc); auto).
     assert (G0 : Pre2g f e1 (pushed (KMulticlass mid) s1)).
@@ -2572,16 +3223,16 @@ Section CasesB9.
         rewrite Et in X. simpl in X. apply X; auto.
       - injection Et as <- <-. split; auto. }
     destruct R1 as [U1 N1 Rb1 G1].
-    pose proof (MB_Pre2 _ _ _ _ Rb1 G1) as P2. pose proof (MB_Stat _ _ _ _ Rb1) as T2.
-    assert (F2 : e_frames e2 <> []) by (destruct Rb1 as [t fr frs mc _ Hfe2 _ _ _ _ _ _ _ _ _]; rewrite Hfe2; discriminate).
+    pose proof (MB_Pre2 _ _ _ _ Rb1 G1) as P2. pose proof (MB_Stat _ _ _ _ Rb1) as T2. pose proof (MB_inh _ _ _ _ Rb1) as I2.
+    assert (F2 : e_frames e2 <> []) by (destruct Rb1 as [t fr frs mc _ Hfe2 _ _ _ _ _ _ _ _ _ _]; rewrite Hfe2; discriminate).
     (* parents *)
     assert (Hk : current_multiclass_id st <> None \/ current_defm_id st <> None).
     { left. destruct (MB_current _ _ _ _ Rb1) as [_ X]. rewrite X. discriminate. }
     pose proof (parents_mc_sim n ps f e2 st Hfp P2 T2 Hk HR2 Hbp) as S2.
-    pose proof (ResB_of_StepM f e2 st _ _ S2 P2 T2 F2) as R2. pose proof R2 as [U2 N2 _ P3 T3 _].
+    pose proof (ResB_of_StepM f e2 st _ _ S2 P2 T2 F2 I2) as R2. pose proof R2 as [U2 N2 _ P3 T3 _ I3].
     (* body statements *)
-    pose proof (stmtsB_sim files n IH b f e2 (snd (index_parents n ps st)) Hfb P3 T3 F2) as R3.
-    rewrite Eb in R3. simpl in R3. specialize (R3 HR3 Hb'). destruct R3 as [U3 N3 _ P4 T4 F4].
+    pose proof (stmtsB_sim files n IH b f e2 (snd (index_parents n ps st)) Hfb P3 T3 F2 I3) as R3.
+    rewrite Eb in R3. simpl in R3. specialize (R3 HR3 Hb'). destruct R3 as [U3 N3 _ P4 T4 F4 I4].
     set (s4 := snd (iterM (index_stmt files n) b (snd (index_parents n ps st)))) in *.
     assert (Ebody : snd (body (pushed (KMulticlass mid) s1)) = s4) by reflexivity.
     destruct (grows_mc_body files n (fun l => grows_iterM _ _ _ l (fun x _ => grows_index_stmt files n x)) targs ps b
@@ -2603,17 +3254,17 @@ End CasesB9.
 Theorem statements_agree : forall files n, sim_B files n.
 Proof.
   intros files n. induction n as [|n IH].
-  - intros x f e s Hf P T He HR Hb. simpl in Hb. discriminate.
-  - intros x f e s Hf P T He HR Hb. destruct x; simpl in Hf; try discriminate.
+  - intros x f e s Hf P T He HI HR Hb. simpl in Hb. discriminate.
+  - intros x f e s Hf P T He HI HR Hb. destruct x; simpl in Hf; try discriminate.
     + (* assert *) apply andb_true_iff in Hf. destruct Hf as [Hfc Hfm].
       change (spec_stmt f e (SAssert c m)) with (spec_value f e m ++ spec_value f e c, e) in *.
       apply caseB_assert; auto.
     + (* class *)
       apply andb_true_iff in Hf. destruct Hf as [Hf Hfb]. apply andb_true_iff in Hf. destruct Hf as [Hft Hfp].
-      destruct parents; [|discriminate]. apply caseB_class; auto.
+      apply caseB_class; auto.
     + (* def *)
       apply andb_true_iff in Hf. destruct Hf as [Hf Hfb]. apply andb_true_iff in Hf. destruct Hf as [Hfn Hfp].
-      destruct parents; [|discriminate]. apply caseB_def; auto.
+      apply caseB_def; auto.
     + (* defm *) apply andb_true_iff in Hf. destruct Hf as [Hfn Hfp]. apply caseB_defm; auto.
     + (* defset *) apply (caseB_defset files n IH); auto; try (now apply fragB_of_local).
     + (* defvar *)
@@ -2632,8 +3283,8 @@ Proof.
       apply (caseB_multiclass files n IH); auto; try (now apply fragB_of_local).
 Qed.
 
-(** C05_resolution for one file of the fragment (all statements; classes and defs without parent classes; no
-    field access; no include): the model's log of resolved uses is exactly the specification's list *)
+(** C05_resolution for one file of the fragment (all statements, parent classes included; no field access; no
+    include): the model's log of resolved uses is exactly the specification's list *)
 Theorem file_resolution : forall files n l,
     fragB_stmts l = true ->
     forallb resolved (fst (spec_stmts 0 env0 l)) = true ->
@@ -2644,8 +3295,8 @@ Proof.
   intros files n l Hf HR Hb.
   assert (T0 : Stat st0).
   { split; [reflexivity| |discriminate]. intros c mid [<-|[]] Hk. discriminate. }
-  destruct (stmtsB_sim files n (statements_agree files n) l 0 env0 st0 Hf Pre2_initial T0) as [U N _ _ _ _]; auto;
-    try discriminate.
+  destruct (stmtsB_sim files n (statements_agree files n) l 0 env0 st0 Hf Pre2_initial T0) as [U N _ _ _ _ _]; auto;
+    try discriminate; try apply Inh_initial.
   split.
   - rewrite U. simpl. rewrite app_nil_r. apply rev_involutive.
   - rewrite N. reflexivity.
